@@ -6,28 +6,37 @@ import sympy as sp
 from vcheck import rules, symx
 from vcheck.core import PyRepo, AnalysisError, call_name, dotted_name, kwarg, norm, walk_no_nested
 from vcheck.rules import cfg_of
-from checks.C06 import Spaces
 
 MANIFEST = dict(
-    text="Formula conformance by symbolic normal forms plus loop lock-step rules (not numerical testing): the weighted-moment routine is "
-         "abstractly interpreted for every (inputmean, calcerr, sdev) setting with sums as uninterpreted linear functionals and compared "
-         "with the documented definitions (sum(w x)/sum(w), 1/sqrt(sum w), sqrt(sum w^2 (x-m)^2)/sum w, sqrt(sum w (x-m)^2/sum w)); "
-         "linear interpolation is compared with (u-x_k)(v_{k+1}-v_k)/(x_{k+1}-x_k)+v_k with k = clamp(searchsorted(x,u)-1, 0, n-2) "
-         "(two-sided clamp gives straight-line extension); cov->cor and cor->cov element formulas and their symbolic inverse for a positive "
-         "diagonal; the clipping loop keeps the reported statistics in lock step with the reported subset (every update of the surviving "
-         "index set is followed by recomputation before the loop continues or exits), uses a strict < keep test on the current subset and "
-         "the stated termination tests; the weighted median scans the sorted order by remaining weight against half the total; the "
-         "summary helper wires min/max/mean/deviation/error from these routines in the right roles.",
-    note="Not decided: numerical values, behaviour for zero total weight. Trusted: numpy reductions (sum/mean/std/min/max), searchsorted, sympy normaliser.",
-    technique="static analysis: abstract interpretation over a symbolic term domain (reductions as uninterpreted functionals), CFG must-pass-through rules, index-space typing",
+    text="Formula conformance by symbolic normal forms plus bounded symbolic path execution of the loop routines (not numerical testing): the "
+         "weighted-moment routine is abstractly interpreted for every (inputmean, calcerr, sdev) setting with sums as uninterpreted "
+         "functionals and compared with the documented definitions (sum(w x)/sum(w), 1/sqrt(sum w), sqrt(sum w^2 (x-m)^2)/sum w, "
+         "sqrt(sum w (x-m)^2/sum w)); its layout rules (sums over axis 0, 1-d weights given a column axis only for N-by-d data, shape "
+         "mismatch rejected, replication of element 0 guarded by a length test) read the routine together with the private helpers it "
+         "calls and classify names by the public parameter they derive from and tests by what they say; linear interpolation is compared "
+         "with (u-x_k)(v_{k+1}-v_k)/(x_{k+1}-x_k)+v_k where the segment index is decided to be clamp(searchsorted(x,u)-1, 0, n-2) by "
+         "complete enumeration of the integer cases however the clamp is spelled; cov->cor and cor->cov are evaluated element by element "
+         "(loop nests over full index ranges and broadcast stores alike) and compared with the element formulas, with their symbolic "
+         "inverse for a positive diagonal, the float64 result buffer and the rejection of a non-positive diagonal; sigma_clip, wmedian, "
+         "get_stats and boxcar_average are executed on every path (loops unrolled up to a bound, private helpers entered, other package "
+         "functions as constructors) over a term domain in which the surviving index set is a chain all -> all[keep_0] -> ...: on every "
+         "path the reported statistics are those of the reported set, every keep test is the strict |x-mean| < nsig*deviation on the "
+         "current set and its own statistics, the loop is left only for all-clipped / nothing-changed (count compared with the size of the "
+         "current set) or after exactly niter passes; the weighted median returns the value at sorted position k exactly when the "
+         "remaining weight exceeds half the total for all earlier positions and not for k; the summary helper wires "
+         "min/max/mean/deviation/error from these routines in the right roles with the right keywords.",
+    note="Not decided: numerical values, behaviour for zero total weight, more than 3 (clipping) / 4 (median) passes of a loop (the paths are "
+         "structurally uniform). Trusted: numpy reductions (sum/mean/std/min/max), searchsorted, argsort, where, sympy normaliser.",
+    technique="static analysis: abstract interpretation over a symbolic term domain (reductions as uninterpreted functionals), bounded symbolic "
+              "path execution with path constraints, index-aware element evaluation of matrix code, CFG control-dependence facts",
 )
 
 ST = "esutil.stat.util."
 SUM = sp.Function("SUM")
 
 
-# rules that keep their verdict however the code is laid out (decided by term equality, effect analysis or dominance over
-# resolved calls); every other rule of this check is a template rule (vcheck.core.Check.obt)
+# rules that keep their verdict however the code is laid out (decided by term equality over all paths, element evaluation, or
+# control-dependence facts read through helpers); every other rule of this check is a template rule (vcheck.core.Check.obt)
 SEMANTIC = ('R18.clip', 'R18.cov', 'R18.wmom')
 
 
@@ -50,12 +59,13 @@ def wmom(chk, repo):
     fi = repo.func(ST + "wmom")
     chk.analysed_unit(fi.qualname)
     x, w, m0 = symx.symbols("x", "w", "m0")
+    pos = [p for p in fi.params if not p.startswith("*")]
     for im in (False, True):
         for calcerr in (False, True):
             for sdev in (False, True):
                 se = symx.SymEval(repo, opaque_tests=False)
                 se.assume = {"call:isscalar": True, "text:not np.isscalar(werr) and len(werr) < ndim": False}
-                args = {"arrin": x, "weights_in": w}
+                args = {pos[0]: x, pos[1]: w}
                 if im:
                     args["inputmean"] = m0
                 r = se.run(fi, args, {"calcerr": calcerr, "sdev": sdev})
@@ -69,35 +79,349 @@ def wmom(chk, repo):
                 chk.ob("R18.wmom", tag + "::mean", eq, fi.where(), "mean is %s (found %s)" % ("the supplied mean" if im else "sum(w x)/sum(w)", r[0]))
                 err = sp.sqrt(SUM(w ** 2 * (x - mean) ** 2)) / SUM(w) if calcerr else 1 / sp.sqrt(SUM(w))
                 eq, d = symx.equal(r[1], err)
+                if not eq and isinstance(r[1], sp.Basic):
+                    eq, d = symx.equal(_drop_replication(r[1]), err)
                 chk.ob("R18.wmom", tag + "::error", eq, fi.where(), "error estimate is %s (found %s)" % ("sqrt(sum w^2 (x-m)^2)/sum w" if calcerr else "1/sqrt(sum w)", r[1]))
                 if sdev:
                     sd = sp.sqrt(SUM(w * (x - mean) ** 2) / SUM(w))
                     eq, d = symx.equal(r[2], sd)
                     chk.ob("R18.wmom", tag + "::deviation", eq, fi.where(), "weighted deviation is sqrt(sum w (x-m)^2 / sum w) (found %s)" % r[2])
+    _wmom_layout_rules(chk, repo, fi)
+
+
+def _drop_replication(t):
+    """in the element-wise view a per-column statistic and `its element 0 repeated for every column` are the same term: AT(e, 0) is e,
+    and a Piecewise whose branches then agree is that branch (whether the replication happens is the business of the guard rule)"""
+    t = t.replace(lambda e: getattr(getattr(e, "func", None), "__name__", "") == "AT" and len(e.args) == 2 and e.args[1] == 0, lambda e: e.args[0])
+
+    def fold(e):
+        vals = [v for v, _ in e.args]
+        return vals[0] if all(symx.equal(vals[0], v)[0] for v in vals[1:]) else e
+    return t.replace(lambda e: isinstance(e, sp.Piecewise), fold)
+
+
+# ---------------------------------------------------------------------------
+# layout-independent AST rules: a rule looks at a public function together with the private helpers of the same module it calls
+# (transitively); names are classified by the public parameter they derive from (their role), tests by what they say
+# ---------------------------------------------------------------------------
+
+class _Unit:
+    """one function of a unit set: the function, the role of its names, and the facts that control the call site it was reached by"""
+
+    def __init__(self, fi, roles, site_facts):
+        self.fi = fi
+        self.roles = roles
+        self.site_facts = site_facts
+        self.cfg = cfg_of(fi)
+        self.view = self.cfg.view()
+
+
+_SAME_ARRAY = {"atleast_1d", "asarray", "asanyarray", "array", "ascontiguousarray", "astype", "copy", "float64", "double", "ravel", "view"}
+
+
+def _same_array(e):
+    """the name an expression is a re-presentation of (same elements: converted, copied, given an extra axis), or None"""
+    if isinstance(e, ast.Name):
+        return e.id
+    if isinstance(e, ast.Call) and call_name(e) in _SAME_ARRAY:
+        if isinstance(e.func, ast.Attribute) and dotted_name(e.func.value) not in ("np", "numpy"):
+            return _same_array(e.func.value)
+        return _same_array(e.args[0]) if e.args else None
+    s = _column_axis_source(e)
+    return s
+
+
+def _role_of_expr(e, roles):
+    s = _same_array(e)
+    return roles.get(s) if s is not None else None
+
+
+def _name_roles(fn, seed):
+    """role of every local: a name bound to a re-presentation of an array (np.atleast_1d(x).astype(..), x[:, newaxis]) has the role of that array"""
+    roles = dict(seed)
+    for a in sorted([x for x in walk_no_nested(fn) if isinstance(x, ast.Assign)], key=lambda x: (x.lineno, x.col_offset)):
+        r = _role_of_expr(a.value, roles)
+        if r is None:
+            continue
+        for t in a.targets:
+            if isinstance(t, ast.Name) and t.id not in seed:
+                roles.setdefault(t.id, r)
+    return roles
+
+
+def _private_callee(repo, fi, c):
+    if not isinstance(c.func, ast.Name):
+        return None
+    q = repo.resolve_name(fi.module, c.func.id)
+    if repo.has(q) and repo.func(q).module is fi.module and repo.func(q).name.startswith("_"):
+        return repo.func(q)
+    return None
+
+
+def _units(repo, fi, seed, depth=3):
+    """fi and the private same-module helpers it calls, each with name roles and the facts controlling its call site"""
+    out = [_Unit(fi, _name_roles(fi.node, seed), [])]
+    seen = {fi.qualname}
+    todo = [(out[0], 0)]
+    while todo:
+        u, d = todo.pop(0)
+        if d >= depth:
+            continue
+        for n in u.cfg.nodes:
+            for c in rules.stmts_calls(n):
+                h = _private_callee(repo, u.fi, c)
+                if h is None or h.qualname in seen:
+                    continue
+                seen.add(h.qualname)
+                hp = [p for p in h.params if not p.startswith("*")]
+                hseed = {}
+                for p, a in list(zip(hp, c.args)) + [(k.arg, k.value) for k in c.keywords if k.arg]:
+                    r = _role_of_expr(a, u.roles)
+                    if r is not None:
+                        hseed[p] = r
+                # results unpacked at the call site keep the role the helper gives them
+                hu = _Unit(h, _name_roles(h.node, hseed), _node_facts(u, n))
+                if isinstance(n.ast, ast.Assign) and n.ast.value is c and isinstance(n.ast.targets[0], ast.Tuple):
+                    for rn in rules.return_nodes(hu.cfg):
+                        rv = rn.ast.value
+                        if isinstance(rv, ast.Tuple) and len(rv.elts) == len(n.ast.targets[0].elts):
+                            for t, e in zip(n.ast.targets[0].elts, rv.elts):
+                                r = _role_of_expr(e, hu.roles)
+                                if isinstance(t, ast.Name) and r is not None:
+                                    u.roles.setdefault(t.id, r)
+                out.append(hu)
+                todo.append((hu, d + 1))
+    return out
+
+
+def _split(test, truth):
+    """atomic (test, truth) facts implied by `test` having the given truth value"""
+    if isinstance(test, ast.UnaryOp) and isinstance(test.op, ast.Not):
+        return _split(test.operand, not truth)
+    if isinstance(test, ast.BoolOp) and ((isinstance(test.op, ast.And) and truth) or (isinstance(test.op, ast.Or) and not truth)):
+        return [f for v in test.values for f in _split(v, truth)]
+    return [(test, truth)]
+
+
+_CMP = {ast.Lt: lambda a, b: a < b, ast.LtE: lambda a, b: a <= b, ast.Gt: lambda a, b: a > b, ast.GtE: lambda a, b: a >= b,
+        ast.Eq: lambda a, b: a == b, ast.NotEq: lambda a, b: a != b}
+_FLIP = {ast.Lt: ast.Gt, ast.LtE: ast.GtE, ast.Gt: ast.Lt, ast.GtE: ast.LtE, ast.Eq: ast.Eq, ast.NotEq: ast.NotEq}
+
+
+def _ndim_of(e):
+    """name whose number of dimensions the expression is: len(A.shape), A.ndim, np.ndim(A)"""
+    if isinstance(e, ast.Call) and call_name(e) == "len" and len(e.args) == 1 and isinstance(e.args[0], ast.Attribute) and e.args[0].attr == "shape" \
+            and isinstance(e.args[0].value, ast.Name):
+        return e.args[0].value.id
+    if isinstance(e, ast.Attribute) and e.attr == "ndim" and isinstance(e.value, ast.Name):
+        return e.value.id
+    if isinstance(e, ast.Call) and call_name(e) == "ndim" and len(e.args) == 1 and isinstance(e.args[0], ast.Name):
+        return e.args[0].id
+    return None
+
+
+def _len_of(e):
+    """name whose number of entries (first axis) the expression is: len(T), T.size, T.shape[0]"""
+    if isinstance(e, ast.Call) and call_name(e) == "len" and len(e.args) == 1 and isinstance(e.args[0], ast.Name):
+        return e.args[0].id
+    if isinstance(e, ast.Attribute) and e.attr == "size" and isinstance(e.value, ast.Name):
+        return e.value.id
+    if isinstance(e, ast.Subscript) and norm(e.slice) == "0" and isinstance(e.value, ast.Attribute) and e.value.attr == "shape" and isinstance(e.value.value, ast.Name):
+        return e.value.value.id
+    return None
+
+
+def _fact(test, truth, roles):
+    """classify one atomic fact: ('dim', role-or-name, '1d'|'nd'), ('shapes-differ', {roles}), ('shorter', name), or ('other', text)"""
+    if isinstance(test, ast.Compare) and len(test.ops) == 1 and type(test.ops[0]) in _CMP:
+        l, r, op = test.left, test.comparators[0], type(test.ops[0])
+        if _ndim_of(l) is None and _ndim_of(r) is not None:
+            l, r, op = r, l, _FLIP[op]
+        a = _ndim_of(l)
+        if a is not None and isinstance(r, ast.Constant) and isinstance(r.value, int):
+            # arrays here have passed atleast_1d: 1, 2, 3 stand for "1-d", "N-by-d" and "more"
+            allowed = {d for d in (1, 2, 3) if _CMP[op](d, r.value) == truth}
+            who = roles.get(a, a)
+            if allowed == {1}:
+                return ("dim", who, "1d")
+            if allowed in ({2, 3}, {2}):
+                return ("dim", who, "nd")
+        if op in (ast.Eq, ast.NotEq) and all(isinstance(x, ast.Attribute) and x.attr == "shape" and isinstance(x.value, ast.Name) for x in (l, r)):
+            differ = (op is ast.NotEq) == truth
+            return ("shapes-differ" if differ else "shapes-equal", frozenset(roles.get(x.value.id, x.value.id) for x in (l, r)))
+        if _len_of(l) is None and _len_of(r) is not None:
+            l, r, op = r, l, _FLIP[op]
+        t = _len_of(l)
+        if t is not None and _len_of(r) is None:
+            # len(T) < X, len(T) != X (true) / len(T) >= X, len(T) == X (false): T has fewer entries than X
+            if (op in (ast.Lt, ast.NotEq) and truth) or (op in (ast.GtE, ast.Eq) and not truth):
+                return ("shorter", t)
+    return ("other", ("" if truth else "not ") + norm(test))
+
+
+def _node_facts(u, n):
+    """classified facts that hold whenever CFG node n of unit u executes (tests of the controlling branches, with their outcome,
+    plus the facts of the call site through which the unit was reached)"""
+    out = list(u.site_facts)
+    for b, lab in u.view.controlling_branches(n):
+        if b.kind == "branch" or (b.kind == "loop" and isinstance(b.ast, ast.While)):
+            if lab in ("T", "F"):
+                for t, tr in _split(b.ast.test, lab == "T"):
+                    out.append(_fact(t, tr, u.roles))
+    return out
+
+
+def _column_axis_source(v):
+    """S when the expression gives the 1-d array S a trailing axis of length one: S[:, newaxis], S[:, None], S.reshape(-1, 1),
+    np.expand_dims(S, 1), np.reshape(S, (-1, 1))"""
+    if isinstance(v, ast.Subscript) and isinstance(v.value, ast.Name) and isinstance(v.slice, ast.Tuple) and len(v.slice.elts) == 2:
+        a, b = v.slice.elts
+        full = (isinstance(a, ast.Slice) and a.lower is None and a.upper is None and a.step is None) or (isinstance(a, ast.Constant) and a.value is Ellipsis)
+        newax = (isinstance(b, ast.Constant) and b.value is None) or (dotted_name(b) or "").split(".")[-1] == "newaxis"
+        if full and newax:
+            return v.value.id
+    if isinstance(v, ast.Call) and call_name(v) == "reshape":
+        if isinstance(v.func, ast.Attribute) and isinstance(v.func.value, ast.Name) and dotted_name(v.func.value) not in ("np", "numpy"):
+            src, shp = v.func.value.id, v.args
+        else:
+            src, shp = (v.args[0].id if v.args and isinstance(v.args[0], ast.Name) else None), v.args[1:]
+        if len(shp) == 1 and isinstance(shp[0], (ast.Tuple, ast.List)):
+            shp = shp[0].elts
+        if src and [norm(x) for x in shp] == ["-1", "1"]:
+            return src
+    if isinstance(v, ast.Call) and call_name(v) == "expand_dims" and v.args and isinstance(v.args[0], ast.Name):
+        ax = v.args[1] if len(v.args) > 1 else kwarg(v, "axis")
+        if ax is not None and norm(ax) in ("1", "-1"):
+            return v.args[0].id
+    return None
+
+
+def _sum_axis(c):
+    """axis argument of X.sum(...) / np.sum(X, ...)"""
+    ax = kwarg(c, "axis")
+    if ax is None:
+        method = isinstance(c.func, ast.Attribute) and dotted_name(c.func.value) not in ("np", "numpy")
+        pos = c.args if method else c.args[1:]
+        ax = pos[0] if pos else None
+    return ax
+
+
+def _wmom_layout_rules(chk, repo, fi):
+    pos = [p for p in fi.params if not p.startswith("*")]
+    units = _units(repo, fi, {pos[0]: "data", pos[1]: "weights"})
+    for u in units:
+        if u.fi is not fi:
+            chk.analysed_unit(u.fi.qualname)
     # replication of element 0 of a statistic (used when 1-d weights give one error for d columns) must be guarded by a length test:
     # unguarded, per-column values are overwritten by column 0's
-    cfg0 = cfg_of(fi)
-    view0 = cfg0.view()
-    for n in cfg0.nodes:
-        a = n.ast
-        if n.kind == "stmt" and isinstance(a, ast.Assign) and len(a.targets) == 1 and isinstance(a.targets[0], ast.Name):
-            t = a.targets[0].id
-            if any(isinstance(x_, ast.Subscript) and norm(x_.value) == t and norm(x_.slice) == "0" for x_ in ast.walk(a.value)):
-                guards = [tt for tt, lab in rules.controlling_tests(view0, n) if lab == "T"]
-                okg = any(("len(%s) <" % t) in g.replace("  ", " ") or ("%s.size <" % t) in g for g in guards)
-                chk.ob("R18.wmom", "wmom::replication-of-%s[0]-guarded-by-length" % t, okg, fi.where(a),
-                       "`%s` is rebuilt from its own element 0 only when it has fewer entries than there are columns (guards: %s)" % (t, guards))
+    for u in units:
+        for n in u.cfg.nodes:
+            a = n.ast
+            if not (n.kind == "stmt" and isinstance(a, ast.Assign) and len(a.targets) == 1 and isinstance(a.targets[0], ast.Name)):
+                continue
+            srcs = {x.value.id for x in ast.walk(a.value) if isinstance(x, ast.Subscript) and isinstance(x.value, ast.Name) and norm(x.slice) == "0"
+                    and u.roles.get(x.value.id) not in ("data", "weights") and isinstance(x.ctx, ast.Load)}
+            for t in sorted(srcs):
+                if _column_axis_source(a.value) is not None:
+                    continue
+                facts = _node_facts(u, n)
+                okg = ("shorter", t) in facts
+                if not okg and any(f[0] == "other" and any(x in f[1] for x in ("len(%s)" % t, "%s.size" % t, "%s.shape" % t)) for f in facts):
+                    okg = None          # guarded by a test on the length of t that this rule does not read
+                chk.ob("R18.wmom", "wmom::replication-of-%s[0]-guarded-by-length" % t, okg, u.fi.where(a),
+                       "`%s` is rebuilt from its own element 0 only when it has fewer entries than there are columns (guards: %s)"
+                       % (t, [f[1] if f[0] == "other" else f for f in facts]))
     # reductions run over axis 0 (N-by-d inputs) and 1-d weights are broadcast over columns
-    sums = [x_ for x_ in walk_no_nested(fi.node) if isinstance(x_, ast.Call) and call_name(x_) == "sum"]
-    ok = len(sums) >= 4 and all(kwarg(c, "axis") is not None and norm(kwarg(c, "axis")) == "0" for c in sums)
-    chk.ob("R18.wmom", "wmom::sums-over-axis-0", ok, fi.where(), "every sum runs over axis 0 (rows), so N-by-d inputs give one value per column (%d sums)" % len(sums))
-    cfg = cfg_of(fi)
-    view = cfg.view()
-    bc = [n for n in cfg.nodes if n.kind == "stmt" and isinstance(n.ast, ast.Assign) and norm(n.ast) == "weights = weights[:, newaxis]"]
-    ok = len(bc) == 1 and dict(rules.controlling_tests(view, bc[0])) == {"len(arr.shape) > 1": "T", "len(weights.shape) == 1": "T"}
-    chk.ob("R18.wmom", "wmom::1d-weights-broadcast-for-Nd", ok, fi.where(), "1-d weights are given a column axis only for N-by-d data")
-    okr = any(("weights.shape != arr.shape", "T") in rules.controlling_tests(view, n) for n in rules.raise_nodes(cfg))
-    chk.ob("R18.wmom", "wmom::shape-mismatch-rejected", okr, fi.where(), "1-d data with weights of another shape are rejected")
+    sums = [(u, c) for u in units for c in walk_no_nested(u.fi.node) if isinstance(c, ast.Call) and call_name(c) == "sum"]
+    bad = [(u, c) for u, c in sums if _sum_axis(c) is None or norm(_sum_axis(c)) != "0"]
+    chk.ob("R18.wmom", "wmom::sums-over-axis-0", (not bad) if sums else None, bad[0][0].fi.where(bad[0][1]) if bad else fi.where(),
+           "every sum runs over axis 0 (rows), so N-by-d inputs give one value per column (%d sums%s)"
+           % (len(sums), "; not over axis 0: `%s`" % norm(bad[0][1]) if bad else ""))
+    # the statement that gives weights a column axis, and what controls it
+    bc = []
+    for u in units:
+        for n in u.cfg.nodes:
+            if n.kind == "stmt" and isinstance(n.ast, ast.Assign):
+                s = _column_axis_source(n.ast.value)
+                if s is not None and u.roles.get(s) == "weights":
+                    bc.append((u, n))
+    ok, why = None, "no statement that gives the weights a column axis was found"
+    if bc:
+        verdicts = []
+        for u, n in bc:
+            facts = _node_facts(u, n)
+            dims = {f[1:] for f in facts if f[0] == "dim"}
+            other = [f for f in facts if f[0] != "dim"]
+            if ("data", "1d") in dims or ("weights", "nd") in dims:
+                verdicts.append(False)
+            elif {("data", "nd"), ("weights", "1d")} <= dims:
+                verdicts.append(True)
+            elif other:
+                verdicts.append(None)       # controlled by a test this rule cannot read
+            else:
+                verdicts.append(False)      # every controlling test was read and one of the two conditions is missing
+            why = "controlled by %s" % sorted(map(str, facts))
+        ok = False if False in verdicts else (None if None in verdicts else True)
+    chk.ob("R18.wmom", "wmom::1d-weights-broadcast-for-Nd", ok, bc[0][0].fi.where(bc[0][1].ast) if bc else fi.where(),
+           "1-d weights are given a column axis only for N-by-d data (%s)" % why)
+    raises = [(u, n, _node_facts(u, n)) for u in units for n in rules.raise_nodes(u.cfg)]
+    want = ("shapes-differ", frozenset(("data", "weights")))
+    hit = [x for x in raises if want in x[2] and ("dim", "data", "nd") not in x[2]]
+    unread = [x for x in raises if any(f[0] == "other" for f in x[2])]
+    okr = True if hit else (None if unread else False)
+    chk.ob("R18.wmom", "wmom::shape-mismatch-rejected", okr, (hit[0][0].fi.where(hit[0][1].ast) if hit else fi.where()),
+           "1-d data with weights of another shape are rejected")
+
+
+def _clamp_classes(r, x, u):
+    """classify every index expression e of a term AT(x, e) / AT(v, e) in r as a function of the two integers it can depend on
+    (s = searchsorted(x, u) in 0..n, n = size(x) >= 2) by complete enumeration over n = 2..8: returns {e: 'k' | 'k+1' | 'other' | None}
+    where k = clamp(s - 1, 0, n - 2) and None means e is not such an integer function.  This decides equality of the integer clamp
+    however it is spelled (masked stores, np.minimum/np.maximum, np.clip, np.where); the remaining formula is compared algebraically."""
+    SS, SIZE, AT = sp.Function("SEARCHSORTED"), sp.Function("SIZE"), sp.Function("AT")
+    s_, n_ = sp.Symbol("s_", integer=True), sp.Symbol("n_", integer=True)
+    out = {}
+    for a in r.atoms(AT):
+        if len(a.args) != 2:
+            continue
+        e = a.args[1]
+        if e in out:
+            continue
+        f = e.xreplace({SS(x, u): s_, SIZE(x): n_})
+        CL = sp.Function("CLIP")
+        f = f.replace(CL, lambda v_, lo, hi: sp.Min(sp.Max(v_, lo), hi))
+        if f.free_symbols - {s_, n_} or f.atoms(sp.core.function.AppliedUndef):
+            out[e] = None
+            continue
+        cls = {"k": True, "k+1": True}
+        low = high = True
+        bad = False
+        for n in range(2, 9):
+            for sv in range(0, n + 1):
+                try:
+                    val = f.subs({s_: sv, n_: n})
+                    val = int(val) if val.is_Integer else None
+                except Exception:
+                    val = None
+                if val is None:
+                    bad = True
+                    break
+                k = min(max(sv - 1, 0), n - 2)
+                if val != k:
+                    cls["k"] = False
+                    if sv == 0:
+                        low = False
+                    if sv == n:
+                        high = False
+                if val != k + 1:
+                    cls["k+1"] = False
+            if bad:
+                break
+        if bad:
+            out[e] = None
+        else:
+            out[e] = "k" if cls["k"] else ("k+1" if cls["k+1"] else ("other", low, high))
+    return out
 
 
 def interplin(chk, repo):
@@ -105,198 +429,1954 @@ def interplin(chk, repo):
     chk.analysed_unit(fi.qualname)
     v, x, u = symx.symbols("v", "x", "u")
     se = symx.SymEval(repo, opaque_tests=False)
-    r = se.run(fi, {"vin": v, "xin": x, "uin": u}, {})
-    SS, SIZE, AT = sp.Function("SEARCHSORTED"), sp.Function("SIZE"), sp.Function("AT")
-    k0 = SS(x, u) - 1
-    n = SIZE(x)
-    k1 = sp.Piecewise((n - 2, k0 >= n - 1), (k0, True))
-    k = sp.Piecewise((0, k1 < 0), (k1, True))
-    ref = (u - AT(x, k)) * (AT(v, k + 1) - AT(v, k)) / (AT(x, k + 1) - AT(x, k)) + AT(v, k)
-    eq, d = symx.equal(r, ref) if isinstance(r, sp.Basic) else (False, r)
-    chk.ob("R18.interp", "interplin::formula", eq, fi.where(),
-           "result is (u-x_k)(v_{k+1}-v_k)/(x_{k+1}-x_k)+v_k with k = clamp(searchsorted(x,u)-1, 0, n-2)%s" % ("" if eq else " (found %s)" % str(r)[:300]))
+    pos = [p for p in fi.params if not p.startswith("*")]
+    r = se.run(fi, dict(zip(pos, (v, x, u))), {})
+    AT = sp.Function("AT")
+    K = sp.Symbol("K", integer=True)
+    ref = (u - AT(x, K)) * (AT(v, K + 1) - AT(v, K)) / (AT(x, K + 1) - AT(x, K)) + AT(v, K)
+    what = "result is (u-x_k)(v_{k+1}-v_k)/(x_{k+1}-x_k)+v_k with k = clamp(searchsorted(x,u)-1, 0, n-2)"
+    if not isinstance(r, sp.Basic):
+        chk.ob("R18.interp", "interplin::formula", None, fi.where(), what + " (the returned value was not reduced to a term: %r)" % (r,))
+        return
+    cls = _clamp_classes(r, x, u)
+    rk = r.xreplace({e: (K if c == "k" else K + 1) for e, c in cls.items() if c in ("k", "k+1")})
+    eq, d = symx.equal(rk, ref)
+    unknown = [e for e, c in cls.items() if c is None]
+    chk.ob("R18.interp", "interplin::formula", (None if (not eq and unknown) else eq), fi.where(),
+           what + ("" if eq else " (found %s)" % str(r)[:300]))
     # both clamps present (two-sided): upper to n-2, lower to 0
-    if isinstance(r, sp.Basic):
-        idx = {a.args[1] for a in r.atoms(AT) if a.args[0] == x}
-        base = [i for i in idx if not (i - 1 in idx)]
-        txt = str(base[0]) if base else ""
-        chk.ob("R18.interp", "interplin::two-sided-index-clamp", "SIZE(x) - 2" in txt and ("(0," in txt), fi.where(),
-               "the segment index is clamped to [0, n-2] on both sides (straight-line extension beyond either end)")
-    chk.ob("R18.interp", "interplin::inputs-normalised", all(any(isinstance(a, ast.Assign) and norm(a.value) == "np.atleast_1d(%s)" % p for a in walk_no_nested(fi.node)) for p in fi.params), fi.where(),
-           "all three inputs pass atleast_1d (scalars accepted)")
+    others = [(e, c) for e, c in cls.items() if isinstance(c, tuple)]
+    if any(c == "k" for c in cls.values()) and not others:
+        ok2 = True
+    elif others:
+        ok2 = False
+    else:
+        ok2 = None
+    side = "; ".join("`%s` is not clamped %s" % (str(e)[:80], " and ".join(w for w, good in (("below (to 0)", c[1]), ("above (to n-2)", c[2])) if not good) or "to the segment index")
+                     for e, c in others)
+    chk.ob("R18.interp", "interplin::two-sided-index-clamp", ok2, fi.where(),
+           "the segment index is clamped to [0, n-2] on both sides (straight-line extension beyond either end)%s" % (": " + side if side else ""))
+    # every input passes atleast_1d (or an equivalent array conversion) before it is used
+    conv = {}
+    for a in walk_no_nested(fi.node):
+        if isinstance(a, ast.Assign) and isinstance(a.value, ast.Call) and call_name(a.value) in ("atleast_1d", "asarray", "array", "asanyarray") and a.value.args:
+            src = _same_array(a.value.args[0])
+            if src in pos:
+                conv[src] = call_name(a.value)
+    chk.ob("R18.interp", "interplin::inputs-normalised", all(conv.get(p) == "atleast_1d" for p in pos), fi.where(),
+           "all three inputs pass atleast_1d (scalars accepted) (%s)" % conv)
+
+
+class _NoRec(Exception):
+    """the construct is written in a way this checker does not read: no verdict"""
+
+
+class _Arr:
+    """an array known element by element: rank and a function from index terms to the element term.  origin: 'param' (the caller's
+    array or a view of it), 'alloc' (np.zeros and friends; `call` is the allocating call), 'copy' (a copy of / conversion from another
+    array, `call`), 'expr' (the value of an arithmetic expression)"""
+
+    def __init__(self, rank, fn, origin="expr", call=None):
+        self.rank = rank
+        self.fn = fn
+        self.origin = origin
+        self.call = call
+        self.stores = []
+
+
+class _MatEval:
+    """index-aware evaluation of the small matrix routines: a loop `for k in range(<full extent>)` binds k to a universally
+    quantified index; `out[k1, k2] = v` inside such loops and the broadcast store `out[:, :] = V` both define element (i, j) of out.
+    Square N-by-N matrices and length-N vectors: every extent (M.shape[0], M.shape[1], len(M), E.size, np.diagonal(M).size) is N."""
+
+    ELEMWISE = {"sqrt": sp.sqrt, "abs": sp.Abs, "absolute": sp.Abs, "fabs": sp.Abs}
+    SAME = {"asarray", "asanyarray", "ascontiguousarray", "atleast_1d", "atleast_2d"}
+    COPY = {"array", "copy", "astype", "float64", "double"}
+    ALLOC = {"zeros", "empty", "ones", "full", "zeros_like", "empty_like", "ones_like", "full_like"}
+
+    def __init__(self, repo, fi, params):
+        self.repo, self.fi = repo, fi
+        self.N = sp.Symbol("N", integer=True, positive=True)
+        self.AT = sp.Function("AT")
+        self.env = {}
+        self.psym = {}
+        for name, (rank, sym) in params.items():
+            self.psym[name] = sym
+            self.env[name] = _Arr(rank, (lambda S: (lambda *ix: self.AT(S, *ix)))(sym), "param")
+        self.loopinfo = {}      # index symbol -> (full?, text of the iterable)
+        self.rejects = []       # (kind, op, lhs term, rhs term, loops) for `if <test>: raise`; kind 'read' / 'unread'
+        self.unfollowed = []
+        self.ret = []
+        self.nidx = 0
+        self.run(fi.node.body, [], False)
+
+    # -- statements
+    def fresh(self, full, text):
+        self.nidx += 1
+        k = sp.Symbol("k%d" % self.nidx, integer=True)
+        self.loopinfo[k] = (full, text)
+        return k
+
+    def run(self, stmts, loops, conditional):
+        for st in stmts:
+            if isinstance(st, ast.Expr) or isinstance(st, (ast.Pass, ast.Import, ast.ImportFrom, ast.Assert, ast.Raise)):
+                if isinstance(st, ast.Expr) and isinstance(st.value, ast.Call) and _private_callee(self.repo, self.fi, st.value) is not None:
+                    self.unfollowed.append(norm(st.value.func))     # a helper called for its effect (it may validate and raise)
+                continue
+            if isinstance(st, ast.Assign) and len(st.targets) == 1:
+                t = st.targets[0]
+                if isinstance(t, ast.Name):
+                    self.env[t.id] = self.ev(st.value)
+                elif isinstance(t, ast.Subscript) and isinstance(t.value, ast.Name) and isinstance(self.env.get(t.value.id), _Arr):
+                    base = self.env[t.value.id]
+                    base.stores.append((self.ev_index(t.slice), self.ev(st.value), list(loops), conditional, st))
+                elif isinstance(t, ast.Tuple) and all(isinstance(x, ast.Name) for x in t.elts):
+                    v = self.ev(st.value)
+                    if not isinstance(v, tuple) or len(v) != len(t.elts):
+                        raise _NoRec("unpacking `%s`" % norm(st))
+                    for x, y in zip(t.elts, v):
+                        self.env[x.id] = y
+                else:
+                    raise _NoRec("assignment `%s`" % norm(st)[:60])
+            elif isinstance(st, ast.AugAssign) and isinstance(st.target, ast.Name):
+                self.env[st.target.id] = self.binop(st.op, self.ev(ast.Name(id=st.target.id, ctx=ast.Load())), self.ev(st.value))
+            elif isinstance(st, ast.For):
+                it = st.iter
+                if not (isinstance(it, ast.Call) and call_name(it) == "range" and isinstance(st.target, ast.Name) and 1 <= len(it.args) <= 2 and not st.orelse):
+                    raise _NoRec("loop over `%s`" % norm(it))
+                lo = self.ev(it.args[0]) if len(it.args) == 2 else sp.Integer(0)
+                hi = self.ev(it.args[-1])
+                if not (isinstance(lo, sp.Basic) and isinstance(hi, sp.Basic)):
+                    raise _NoRec("loop over `%s`" % norm(it))
+                off = sp.expand(hi - self.N)
+                if not (lo.is_Integer and off.is_Integer):
+                    raise _NoRec("loop over `%s`" % norm(it))
+                k = self.fresh(bool(lo == 0 and off == 0), norm(it))
+                self.env[st.target.id] = k
+                self.run(st.body, loops + [k], conditional)
+            elif isinstance(st, ast.If):
+                only_raise = all(isinstance(x, (ast.Raise, ast.Expr)) for x in st.body) and any(isinstance(x, ast.Raise) for x in st.body) and not st.orelse
+                if only_raise:
+                    self.reject(st.test, True, loops)
+                else:
+                    self.run(st.body, loops, True)
+                    self.run(st.orelse, loops, True)
+            elif isinstance(st, ast.Return):
+                self.ret.append((self.ev(st.value) if st.value is not None else None, conditional, st))
+            else:
+                raise _NoRec("statement %s at line %s" % (type(st).__name__, st.lineno))
+
+    def reject(self, test, truth, loops):
+        for t, tr in _split(test, truth):
+            loops2 = list(loops)
+            try:
+                if isinstance(t, ast.Call) and call_name(t) in ("any", "all") and (t.args or isinstance(t.func, ast.Attribute)):
+                    # any(c) holds / all(c) fails: some element satisfies c / not c
+                    if (call_name(t) == "any") != tr:
+                        raise _NoRec("test")
+                    tr = call_name(t) == "any"
+                    t = t.args[0] if t.args else t.func.value
+                if not (isinstance(t, ast.Compare) and len(t.ops) == 1 and type(t.ops[0]) in _CMP):
+                    raise _NoRec("test")
+                l, r, op = self.ev(t.left), self.ev(t.comparators[0]), type(t.ops[0])
+                out = []
+                for v in (l, r):
+                    if isinstance(v, _Arr):
+                        ks = [self.fresh(True, "any()") for _ in range(v.rank)]
+                        loops2 += ks
+                        v = v.fn(*ks)
+                    if not isinstance(v, sp.Basic):
+                        raise _NoRec("operand")
+                    out.append(v)
+                if not tr:
+                    op = {ast.Lt: ast.GtE, ast.LtE: ast.Gt, ast.Gt: ast.LtE, ast.GtE: ast.Lt, ast.Eq: ast.NotEq, ast.NotEq: ast.Eq}[op]
+                self.rejects.append(("read", op, out[0], out[1], loops2, norm(t)))
+            except _NoRec:
+                self.rejects.append(("unread", None, None, None, loops2, norm(t)))
+
+    # -- expressions
+    def ev_index(self, s):
+        elts = s.elts if isinstance(s, ast.Tuple) else [s]
+        out = []
+        for x in elts:
+            if isinstance(x, ast.Slice):
+                if x.lower is None and x.upper is None and x.step is None:
+                    out.append("all")
+                else:
+                    raise _NoRec("partial slice `%s`" % norm(x))
+            else:
+                v = self.ev(x)
+                if v is Ellipsis:
+                    out.append("rest")
+                elif v is None:
+                    out.append("new")
+                elif isinstance(v, sp.Basic):
+                    out.append(v)
+                else:
+                    raise _NoRec("index `%s`" % norm(x))
+        return out
+
+    def index(self, base, idx):
+        if "rest" in idx:
+            p = idx.index("rest")
+            used = sum(1 for x in idx if x != "new" and x != "rest")
+            idx = idx[:p] + ["all"] * (base.rank - used) + idx[p + 1:]
+        used = sum(1 for x in idx if x != "new")
+        if used > base.rank:
+            raise _NoRec("too many indices")
+        idx = idx + ["all"] * (base.rank - used)
+        kept = [x for x in idx if isinstance(x, str)]      # axes of the result: 'all' (an axis of base) or 'new'
+        rank = len(kept)
+
+        def fn(*ix, _idx=idx, _base=base):
+            ix = list(ix)
+            args = []
+            for x in _idx:
+                if x == "all":
+                    args.append(ix.pop(0))
+                elif x == "new":
+                    ix.pop(0)
+                else:
+                    args.append(x)
+            return _base.fn(*args)
+        if rank == 0:
+            return fn()
+        return _Arr(rank, fn, "param" if base.origin == "param" else "expr")
+
+    def binop(self, op, a, b):
+        f = {ast.Add: lambda x, y: x + y, ast.Sub: lambda x, y: x - y, ast.Mult: lambda x, y: x * y, ast.Div: lambda x, y: x / y,
+             ast.Pow: lambda x, y: x ** y}.get(type(op))
+        if f is None:
+            raise _NoRec("operator %s" % type(op).__name__)
+        return self.lift(f, a, b)
+
+    def lift(self, f, *vals):
+        for v in vals:
+            if not isinstance(v, (_Arr, sp.Basic)):
+                raise _NoRec("operand %r" % (v,))
+        rank = max([v.rank for v in vals if isinstance(v, _Arr)] or [0])
+        if rank == 0:
+            return f(*vals)
+
+        def fn(*ix):
+            return f(*[(v.fn(*ix[len(ix) - v.rank:]) if isinstance(v, _Arr) else v) for v in vals])
+        return _Arr(rank, fn, "expr")
+
+    def ev(self, e):
+        if isinstance(e, ast.Constant):
+            v = e.value
+            if isinstance(v, bool) or v is None or v is Ellipsis or isinstance(v, str):
+                return v
+            if isinstance(v, int):
+                return sp.Integer(v)
+            if isinstance(v, float):
+                return sp.Rational(repr(v))
+            raise _NoRec("constant")
+        if isinstance(e, ast.Name):
+            if e.id in self.env:
+                return self.env[e.id]
+            if self.repo.resolve_name(self.fi.module, e.id) == "numpy.newaxis":
+                return None
+            raise _NoRec("name `%s`" % e.id)
+        if isinstance(e, ast.Attribute):
+            d = dotted_name(e)
+            if d and self.repo.resolve_name(self.fi.module, d) == "numpy.newaxis":
+                return None
+            b = self.ev(e.value)
+            if isinstance(b, _Arr):
+                if e.attr == "shape":
+                    return tuple([self.N] * b.rank)
+                if e.attr == "size":
+                    return self.N ** b.rank
+                if e.attr == "ndim":
+                    return sp.Integer(b.rank)
+                if e.attr == "T" and b.rank == 2:
+                    return _Arr(2, lambda i, j, _b=b: _b.fn(j, i), b.origin)
+            raise _NoRec("attribute `%s`" % norm(e))
+        if isinstance(e, ast.Tuple):
+            return tuple(self.ev(x) for x in e.elts)
+        if isinstance(e, ast.Subscript):
+            b = self.ev(e.value)
+            if isinstance(b, tuple):
+                i = self.ev(e.slice)
+                if isinstance(i, sp.Integer) and -len(b) <= int(i) < len(b):
+                    return b[int(i)]
+                raise _NoRec("subscript `%s`" % norm(e))
+            if isinstance(b, _Arr):
+                return self.index(b, self.ev_index(e.slice))
+            raise _NoRec("subscript `%s`" % norm(e))
+        if isinstance(e, ast.BinOp):
+            return self.binop(e.op, self.ev(e.left), self.ev(e.right))
+        if isinstance(e, ast.UnaryOp) and isinstance(e.op, ast.USub):
+            return self.lift(lambda x: -x, self.ev(e.operand))
+        if isinstance(e, ast.Call):
+            return self.call(e)
+        raise _NoRec("expression `%s`" % norm(e)[:60])
+
+    def call(self, c):
+        nm = call_name(c)
+        method = isinstance(c.func, ast.Attribute) and dotted_name(c.func.value) not in ("np", "numpy", "math")
+        args = ([c.func.value] if method else []) + list(c.args)
+        if nm in self.ELEMWISE and len(args) == 1:
+            return self.lift(self.ELEMWISE[nm], self.ev(args[0]))
+        if nm in ("float", "int") and len(args) == 1 and nm == "float":
+            return self.ev(args[0])
+        if nm == "len" and len(args) == 1:
+            v = self.ev(args[0])
+            if isinstance(v, _Arr):
+                return self.N
+            if isinstance(v, tuple):
+                return sp.Integer(len(v))
+        if nm in self.SAME and args:
+            return self.ev(args[0])
+        if nm in self.COPY and args:
+            v = self.ev(args[0])
+            if isinstance(v, _Arr):
+                return _Arr(v.rank, v.fn, "copy", c)
+            return v
+        if nm in self.ALLOC and args:
+            if nm.endswith("_like"):
+                v = self.ev(args[0])
+                rank = v.rank if isinstance(v, _Arr) else None
+            else:
+                shp = self.ev(args[0])
+                shp = shp if isinstance(shp, tuple) else (shp,)
+                rank = len(shp) if all(isinstance(x, sp.Basic) and sp.expand(x - self.N) == 0 for x in shp) else None
+            if rank is None:
+                raise _NoRec("allocation `%s` (not of the input's shape)" % norm(c))
+            fill = sp.Integer(1) if nm.startswith("ones") else sp.Integer(0)
+            if nm.startswith("full"):
+                fv = self.ev(args[1]) if len(args) > 1 else self.ev(kwarg(c, "fill_value"))
+                fill = fv if isinstance(fv, sp.Basic) else sp.Symbol("FILL")
+            return _Arr(rank, lambda *ix, _f=fill: _f, "alloc", c)
+        if nm in ("diagonal", "diag") and len(args) == 1:
+            v = self.ev(args[0])
+            if isinstance(v, _Arr) and v.rank == 2:
+                return _Arr(1, lambda k, _v=v: _v.fn(k, k), v.origin if nm == "diagonal" else "expr")
+            if isinstance(v, _Arr) and v.rank == 1 and nm == "diag":
+                return _Arr(2, lambda i, j, _v=v: sp.KroneckerDelta(i, j) * _v.fn(i), "expr")
+        if nm == "outer" and len(args) == 2:
+            a, b = self.ev(args[0]), self.ev(args[1])
+            if isinstance(a, _Arr) and isinstance(b, _Arr) and a.rank == b.rank == 1:
+                return _Arr(2, lambda i, j, _a=a, _b=b: _a.fn(i) * _b.fn(j), "expr")
+        if nm in ("multiply", "divide", "true_divide", "add", "subtract", "power") and len(args) == 2 and kwarg(c, "out") is None:
+            op = {"multiply": ast.Mult(), "divide": ast.Div(), "true_divide": ast.Div(), "add": ast.Add(), "subtract": ast.Sub(), "power": ast.Pow()}[nm]
+            return self.binop(op, self.ev(args[0]), self.ev(args[1]))
+        raise _NoRec("call `%s`" % norm(c)[:60])
+
+    # -- result
+    def result(self):
+        """(the returned array, element (i, j) as a term, every index runs over the full extent: True / False / None, text)"""
+        i, j = sp.Symbol("ix", integer=True), sp.Symbol("iy", integer=True)
+        if len(self.ret) != 1 or self.ret[0][1]:
+            raise _NoRec("%d return statements%s" % (len(self.ret), " (conditional)" if self.ret and self.ret[0][1] else ""))
+        out = self.ret[0][0]
+        if not isinstance(out, _Arr) or out.rank != 2:
+            raise _NoRec("the returned value is not a matrix known element by element")
+        if not out.stores:
+            return out, out.fn(i, j), True, "expression"
+        if len(out.stores) != 1:
+            raise _NoRec("%d stores into the result" % len(out.stores))
+        idx, val, loops, conditional, st = out.stores[0]
+        if conditional:
+            raise _NoRec("conditional store `%s`" % norm(st)[:60])
+        if "rest" in idx or "new" in idx:
+            raise _NoRec("store index `%s`" % norm(st)[:60])
+        idx = idx + ["all"] * (2 - len(idx))
+        if len(idx) != 2:
+            raise _NoRec("store index `%s`" % norm(st)[:60])
+        sub, free, full, texts = {}, [], True, []
+        for x, tgt in zip(idx, (i, j)):
+            if x == "all":
+                free.append(tgt)
+            elif x in self.loopinfo and x in loops and x not in sub:
+                sub[x] = tgt
+                if not self.loopinfo[x][0]:
+                    full = False
+                texts.append(self.loopinfo[x][1])
+            else:
+                raise _NoRec("store index `%s`" % norm(st)[:60])
+        if isinstance(val, _Arr):
+            if val.rank > len(free):
+                raise _NoRec("shape of the stored value in `%s`" % norm(st)[:60])
+            term = val.fn(*free[len(free) - val.rank:])
+        else:
+            term = val
+        if not isinstance(term, sp.Basic):
+            raise _NoRec("stored value in `%s`" % norm(st)[:60])
+        term = term.xreplace(sub)
+        if any(k in term.free_symbols for k in self.loopinfo):
+            raise _NoRec("the stored value depends on a loop index that does not address the element")
+        return out, term, full, (", ".join(texts) or "broadcast store")
+
+
+def _float_alloc(c):
+    """does the allocating / copying call produce float64 whatever the input's dtype: True / False / None (not read)"""
+    nm = call_name(c)
+    dt = kwarg(c, "dtype")
+    if dt is None:
+        if nm in ("zeros", "ones", "empty") and len(c.args) > 1:
+            dt = c.args[1]
+        elif nm == "full" and len(c.args) > 2:
+            dt = c.args[2]
+        elif nm in ("astype",) and c.args:
+            dt = c.args[0]
+        elif nm == "array" and len(c.args) > 1:
+            dt = c.args[1]
+    if nm in ("float64", "double"):
+        return True
+    if dt is None:
+        # numpy's default dtype for zeros/ones/empty is float64; the *_like family, np.array, x.copy() keep the input's dtype;
+        # np.full takes the dtype of the fill value
+        return True if nm in ("zeros", "ones", "empty") else (None if nm == "full" else False)
+    dts = norm(dt).strip("'\"")
+    if dts in ("f8", "float64", "float", "np.float64", "numpy.float64", "d", "np.double", "np.float_", "<f8", "double"):
+        return True
+    if dts.endswith(".dtype"):
+        return False
+    return None
 
 
 def covcor(chk, repo):
     AT = sp.Function("AT")
-    i, j = sp.symbols("ix iy", integer=True)
-    for q, want in ((ST + "cov2cor", lambda A: A(i, j) / sp.sqrt(A(i, i) * A(j, j))), (ST + "cor2cov", None)):
+    i, j = sp.Symbol("ix", integer=True), sp.Symbol("iy", integer=True)
+    M, E = sp.Symbol("M"), sp.Symbol("E")
+    evals = {}
+    for q in (ST + "cov2cor", ST + "cor2cov"):
         fi = repo.func(q)
         chk.analysed_unit(q)
-        loops = sorted([x for x in walk_no_nested(fi.node) if isinstance(x, ast.For)], key=lambda x: x.lineno)
-        ok = len(loops) == 2 and loops[1] in list(ast.walk(loops[0]))
-        chk.ob("R18.cov", fi.name + "::double-loop", ok, fi.where(), "element formula inside a double loop over the matrix")
-        if not ok:
-            continue
-        p0 = fi.params[0]
-        rng = (norm(loops[0].iter), norm(loops[1].iter))
-        okr = rng in (("range(%s.shape[0])" % p0, "range(%s.shape[1])" % p0), ("range(diagerr.shape[0])", "range(diagerr.shape[0])"))
-        chk.ob("R18.cov", fi.name + "::full-index-ranges", okr, fi.where(), "both indices run over the full matrix (%s)" % (rng,))
-        # evaluate the loop bodies symbolically with symbolic indices
-        se = symx.SymEval(repo, opaque_tests=False)
-        env = symx.Env(se, fi, fi.module, {}, {})
-        M, E = sp.Symbol("M"), sp.Symbol("E")
-        env.vars[p0] = M
-        if len(fi.params) > 1:
-            env.vars[fi.params[1]] = E
-        env.vars[norm(loops[0].target)] = i
-        env.vars[norm(loops[1].target)] = j
-        out = [a for a in walk_no_nested(fi.node) if isinstance(a, ast.Assign) and isinstance(a.value, ast.Call)
-               and call_name(a.value) in ("zeros", "empty", "ones", "zeros_like", "empty_like", "ones_like", "full", "full_like")]
-        outn = norm(out[0].targets[0]) if out else "out"
-        okal = False
-        if len(out) == 1:
-            c = out[0].value
-            dt = kwarg(c, "dtype") if kwarg(c, "dtype") is not None else (c.args[1] if len(c.args) > 1 and not call_name(c).endswith("_like") else None)
-            dts = norm(dt).strip("'\"") if dt is not None else None
-            floaty = dts in ("f8", "float64", "float", "np.float64", "numpy.float64", "d")
-            if call_name(c).endswith("_like"):
-                okal = floaty
-            else:
-                okal = (dt is None or floaty) and ".shape" in norm(c.args[0])
-        chk.ob("R18.cov", fi.name + "::result-is-float64-of-input-shape", okal, fi.where(out[0]) if out else fi.where(),
-               "the result matrix is allocated as float64 with the input's shape, never with the input's dtype (an integer covariance would truncate every "
-               "correlation to 0): `%s`" % (norm(out[0].value) if out else "no allocation found"))
-        env.vars[outn] = sp.Symbol("OUT")
-        body0 = [s for s in loops[0].body if s is not loops[1]]
-        env.exec_body([s for s in body0 if not isinstance(s, ast.If)], sp.true)
-        env.exec_body([s for s in loops[1].body if not isinstance(s, ast.If)], sp.true)
-        got = env.elem.get((outn, ("ix", "iy")))
+        pos = [p for p in fi.params if not p.startswith("*")]
+        params = {pos[0]: (2, M)}
+        if len(pos) > 1:
+            params[pos[1]] = (1, E)
         if fi.name == "cov2cor":
             ref = AT(M, i, j) / sp.sqrt(AT(M, i, i) * AT(M, j, j))
         else:
             ref = AT(M, i, j) * AT(E, i) * AT(E, j)
-        eq = got is not None and symx.equal(got, ref)[0]
-        chk.ob("R18.cov", fi.name + "::element-formula", bool(eq), fi.where(), "element (i,j) is %s (found %s)" % (ref, got))
-        rets = [x for x in walk_no_nested(fi.node) if isinstance(x, ast.Return)]
-        chk.ob("R18.cov", fi.name + "::returns-new-matrix", len(rets) == 1 and norm(rets[0].value) == outn, fi.where(), "a newly allocated matrix is returned")
+        try:
+            me = _MatEval(repo, fi, params)
+            evals[fi.name] = me
+            out, got, full, how = me.result()
+            why = ""
+        except (_NoRec, RecursionError, TypeError, ValueError, AttributeError, KeyError, IndexError) as ex:
+            me = evals.get(fi.name)
+            out, got, full, how, why = None, None, None, "", " [not read: %s%s]" % ("" if isinstance(ex, _NoRec) else type(ex).__name__ + ": ", ex)
+        rec = None if out is None else True
+        chk.ob("R18.cov", fi.name + "::double-loop", rec, fi.where(),
+               "the result is defined element by element over both indices (loop nest or broadcast store)%s" % why)
+        chk.ob("R18.cov", fi.name + "::full-index-ranges", full, fi.where(), "both indices run over the full matrix (%s)%s" % (how, why))
+        okal = None
+        txt = "not read"
+        if out is not None:
+            if out.origin == "alloc" or out.origin == "copy":
+                okal = _float_alloc(out.call)
+                txt = norm(out.call)
+            elif out.origin == "expr":
+                okal, txt = True, "no preallocated buffer: the result has the dtype of the arithmetic"
+            elif out.origin == "param":
+                okal, txt = False, "the input matrix itself is overwritten"
+        chk.ob("R18.cov", fi.name + "::result-is-float64-of-input-shape", okal, fi.where(out.call) if out is not None and out.call is not None else fi.where(),
+               "the result matrix is allocated as float64 with the input's shape, never with the input's dtype (an integer covariance would truncate every "
+               "correlation to 0): `%s`%s" % (txt, why))
+        if got is not None and fi.name == "cov2cor":
+            # the diagonal is positive where this formula is reached (a non-positive element is rejected, rule below)
+            pos_ = {AT(M, i, i): sp.Symbol("cii", positive=True), AT(M, j, j): sp.Symbol("cjj", positive=True)}
+            eq = bool(symx.equal(got.xreplace(pos_), ref.xreplace(pos_))[0])
+        else:
+            eq = None if got is None else bool(symx.equal(got, ref)[0])
+        chk.ob("R18.cov", fi.name + "::element-formula", eq, fi.where(), "element (i,j) is %s (found %s)%s" % (ref, got, why))
+        chk.ob("R18.cov", fi.name + "::returns-new-matrix", None if out is None else out.origin != "param", fi.where(), "a newly allocated matrix is returned%s" % why)
     # symbolic inverse for a positive diagonal: cor2cov(cov2cor(C), sqrt(diag C)) = C
     cii, cjj, cij = sp.symbols("cii cjj", positive=True) + (sp.Symbol("cij", real=True),)
     back = (cij / sp.sqrt(cii * cjj)) * sp.sqrt(cii) * sp.sqrt(cjj)
     chk.ob("R18.cov", "cov->cor->cov::identity", sp.simplify(back - cij) == 0, "esutil/stat/util.py", "with a positive diagonal the two element formulas compose to the identity")
+    # a non-positive diagonal element is rejected: some `if d <= 0: raise` where d is the diagonal element at an index that runs over the
+    # full extent (one such test covers the whole diagonal; the reviewed code has two, one per loop)
     fi = repo.func(ST + "cov2cor")
-    cfg = cfg_of(fi)
-    tests = {t for n in rules.raise_nodes(cfg) for t, lab in rules.controlling_tests(cfg.view(), n) if lab == "T"}
-    chk.ob("R18.cov", "cov2cor::non-positive-diagonal-rejected", {"cxx <= 0.0", "cyy <= 0.0"} <= tests, fi.where(), "a non-positive diagonal element is rejected (%s)" % sorted(tests))
+    me = evals.get("cov2cor")
+    ok, seen = None, []
+    if me is not None:
+        verdicts = []
+        for kind, op, l, r, loops, text in me.rejects:
+            seen.append(text)
+            if kind != "read":
+                verdicts.append(None)
+                continue
+            if r != 0 and l == 0:
+                l, r, op = r, l, _FLIP[op]
+            ks = [k for k in loops if me.loopinfo[k][0]]
+            if r == 0 and any(l == AT(M, k, k) for k in loops):
+                if not any(l == AT(M, k, k) for k in ks):
+                    verdicts.append(False)          # the diagonal is only partly visited
+                elif op is ast.LtE:
+                    verdicts.append(True)
+                elif op is ast.Lt:
+                    verdicts.append(False)          # zero passes and is divided by
+                else:
+                    verdicts.append(None)
+        ok = True if True in verdicts else (False if (False in verdicts or not (me.rejects or me.unfollowed)) else None)
+    chk.ob("R18.cov", "cov2cor::non-positive-diagonal-rejected", ok, fi.where(), "a non-positive diagonal element is rejected (%s)" % sorted(seen))
+
+
+# ---------------------------------------------------------------------------
+# bounded symbolic path execution (term domain) for the loop routines: sigma_clip, wmedian, get_stats, boxcar_average
+# ---------------------------------------------------------------------------
+
+def _F(name):
+    return sp.Function(name)
+
+
+IDX, SIZE, DIM, ARANGE, WHERE, COUNT, ABSF, ARGSORT, ITEM, SLICE, NOTF, ANDF, ORF, INF, TUP = [
+    _F(n) for n in ("IDX", "SIZE", "DIM", "ARANGE", "WHERE", "COUNT", "ABS", "ARGSORT", "ITEM", "SLICE", "NOT", "AND", "OR", "IN", "TUPLE")]
+REL = {ast.Lt: _F("LT"), ast.LtE: _F("LE"), ast.Gt: _F("GT"), ast.GtE: _F("GE"), ast.Eq: _F("EQ"), ast.NotEq: _F("NE")}
+RELNAMES = {"LT", "LE", "GT", "GE", "EQ", "NE"}
+NEG = {"LT": "GE", "LE": "GT", "GT": "LE", "GE": "LT", "EQ": "NE", "NE": "EQ"}
+TRUE_, FALSE_, NONE_ = sp.Symbol("True"), sp.Symbol("False"), sp.Symbol("None")
+REDUCE = {"mean": "MEAN", "std": "STD", "sum": "SUM", "min": "MIN", "max": "MAX", "var": "VAR", "median": "MEDIAN"}
+
+
+def _head(t):
+    return getattr(getattr(t, "func", None), "__name__", "") if isinstance(t, sp.Basic) else ""
+
+
+def _is_mask(t):
+    return _head(t) in RELNAMES or _head(t) in ("NOT", "AND", "OR")
+
+
+def _is_index_array(t):
+    h = _head(t)
+    if h in ("ARANGE", "WHERE", "ARGSORT"):
+        return True
+    return h == "IDX" and _is_index_array(t.args[0]) and (_is_mask(t.args[1]) or _is_index_array(t.args[1]))
+
+
+def _csize(t):
+    """canonical number of elements of an array term"""
+    h = _head(t)
+    if h == "ARANGE":
+        return t.args[0]
+    if h == "WHERE":
+        return COUNT(t.args[0])
+    if h == "ARGSORT":
+        return _csize(t.args[0])
+    if h == "IDX":
+        j = t.args[1]
+        if _is_mask(j):
+            return COUNT(j)
+        if _is_index_array(j):
+            return _csize(j)
+    return SIZE(t)
+
+
+def _idx(base, i):
+    # X[arange(X.size)] is X
+    if _head(i) == "ARANGE" and sp.expand(i.args[0] - _csize(base)) == 0:
+        return base
+    # (X[J])[k] is X[J[k]] when J is an index array and k a position
+    if _head(base) == "IDX" and _is_index_array(base.args[1]) and isinstance(i, sp.Basic) and not _is_mask(i) and not _is_index_array(i) and _head(i) != "SLICE":
+        return IDX(base.args[0], _idx(base.args[1], i))
+    return IDX(base, i)
+
+
+class _Opq:
+    def __init__(self, text):
+        self.text = text
+
+    def __repr__(self):
+        return "Opq(%s)" % self.text
+
+
+class _Shape:
+    def __init__(self, arr):
+        self.arr = arr
+
+
+class _Kw:
+    """a keyword dictionary: explicit entries over the caller's unknown **kw (base) over defaults"""
+
+    def __init__(self, explicit=None, base=None, defaults=None):
+        self.explicit = dict(explicit or {})
+        self.base = base
+        self.defaults = dict(defaults or {})
+        self.known_in = {}          # key -> bool: decided membership in base on this path
+
+    def copy(self):
+        k = _Kw(self.explicit, self.base, self.defaults)
+        k.known_in = dict(self.known_in)
+        return k
+
+
+def _t(v):
+    """python value -> term (to embed in an application)"""
+    if isinstance(v, sp.Basic):
+        return v
+    if v is True:
+        return TRUE_
+    if v is False:
+        return FALSE_
+    if v is None:
+        return NONE_
+    if isinstance(v, int):
+        return sp.Integer(v)
+    if isinstance(v, str):
+        return sp.Symbol(repr(v))
+    if isinstance(v, (tuple, list)):
+        return TUP(*[_t(x) for x in v])
+    if isinstance(v, _Opq):
+        return sp.Symbol("OPAQUE<%s>" % v.text)
+    if isinstance(v, _Shape):
+        return _F("SHAPE")(_t(v.arr))
+    if isinstance(v, _Kw):
+        return _F("KWDICT")(*_kwargs_terms(v))
+    if isinstance(v, dict):
+        return _F("DICT")(*[TUP(_t(k), _t(x)) for k, x in v.items()])
+    raise _NoRec("value %r" % (v,))
+
+
+def _kwargs_terms(kw):
+    out = [_F("KW_" + k)(_t(v)) for k, v in sorted(kw.explicit.items())]
+    if kw.base is not None:
+        out.append(_F("KWREST")(kw.base, *[sp.Symbol("without:" + k) for k, v in sorted(kw.known_in.items()) if v is False]))
+    out += [_F("KWDEFAULT_" + k)(_t(v)) for k, v in sorted(kw.defaults.items()) if k not in kw.explicit]
+    return out
+
+
+class _PState:
+    def __init__(self):
+        self.vars = {}
+        self.cons = []          # (condition term, truth) in path order
+        self.bodies = {}        # loop statement id -> number of body executions on this path
+
+    def copy(self):
+        s = _PState()
+        for k, v in self.vars.items():
+            s.vars[k] = list(v) if isinstance(v, list) else (dict(v) if isinstance(v, dict) else (v.copy() if isinstance(v, _Kw) else v))
+        s.cons = list(self.cons)
+        s.bodies = dict(self.bodies)
+        return s
+
+
+class _PX:
+    """explores every path of a function (loops: at most `max_body` executions of a body per path; paths that would need more are
+    not followed) over a term domain.  Private helpers of the same module are entered; other package functions are constructors
+    C_<qualname>(KW_<parameter>(value)...).  A test whose value is not determined by the state forks the path and is recorded as
+    a path constraint.  Yields (returned value, final state) for every path that returns normally."""
+
+    IDENT_F = {"atleast_1d", "asarray", "asanyarray", "array", "ascontiguousarray", "float64", "double"}
+    IDENT_M = {"astype", "copy", "ravel", "flatten", "view"}
+
+    def __init__(self, repo, fi, one_d=True, max_body=4, max_paths=20000):
+        self.repo, self.fi = repo, fi
+        self.one_d = one_d
+        self.max_body = max_body
+        self.max_paths = max_paths
+        self.npaths = 0
+        self.entered = set()
+        self.seen_helpers = set()
+
+    def returns(self, init):
+        st = _PState()
+        st.vars = dict(init)
+        out = []
+        for status, s in self.block(self.fi.node.body, st, self.fi):
+            if status[0] == "return":
+                out.append((status[1], s))
+            elif status[0] == "next":
+                out.append((None, s))
+            self.npaths += 1
+            if self.npaths > self.max_paths:
+                raise _NoRec("more than %d paths" % self.max_paths)
+        return out
+
+    # -- statements ----------------------------------------------------------
+    def block(self, stmts, st, fi):
+        if not stmts:
+            yield ("next",), st
+            return
+        for status, s2 in self.stmt(stmts[0], st, fi):
+            if status[0] == "next":
+                for x in self.block(stmts[1:], s2, fi):
+                    yield x
+            else:
+                yield status, s2
+
+    def stmt(self, a, st, fi):
+        if isinstance(a, (ast.Pass, ast.Global, ast.Nonlocal, ast.Assert, ast.Delete)):
+            yield ("next",), st
+        elif isinstance(a, (ast.Import, ast.ImportFrom)):
+            for al in a.names:
+                mod = (a.module or "") if isinstance(a, ast.ImportFrom) else al.name
+                st.vars[(al.asname or al.name).split(".")[0]] = _Opq("mod:" + (mod + "." + al.name if isinstance(a, ast.ImportFrom) else mod))
+            yield ("next",), st
+        elif isinstance(a, ast.Expr):
+            self.expr_stmt(a.value, st, fi)
+            yield ("next",), st
+        elif isinstance(a, ast.Assign):
+            v = self.ev(a.value, st, fi)
+            for t in a.targets:
+                self.assign(t, v, st, fi)
+            yield ("next",), st
+        elif isinstance(a, ast.AugAssign):
+            cur = self.ev(_as_load(a.target), st, fi)
+            self.assign(a.target, self.binop(a.op, cur, self.ev(a.value, st, fi)), st, fi)
+            yield ("next",), st
+        elif isinstance(a, ast.Return):
+            yield ("return", self.ev(a.value, st, fi) if a.value is not None else None), st
+        elif isinstance(a, ast.Raise):
+            yield ("raise",), st
+        elif isinstance(a, ast.Break):
+            yield ("break",), st
+        elif isinstance(a, ast.Continue):
+            yield ("continue",), st
+        elif isinstance(a, ast.If):
+            for b, s2 in self.fork(self.truth(a.test, st, fi), st):
+                for x in self.block(a.body if b else a.orelse, s2, fi):
+                    yield x
+        elif isinstance(a, ast.While):
+            for x in self.loop(a, st, fi, None, 0):
+                yield x
+        elif isinstance(a, ast.For):
+            it = a.iter
+            if not (isinstance(it, ast.Call) and call_name(it) == "range" and isinstance(a.target, ast.Name) and 1 <= len(it.args) <= 2):
+                raise _NoRec("loop over `%s`" % norm(it))
+            lo = self.ev(it.args[0], st, fi) if len(it.args) == 2 else sp.Integer(0)
+            hi = self.ev(it.args[-1], st, fi)
+            if not (isinstance(lo, sp.Basic) and isinstance(hi, sp.Basic)):
+                raise _NoRec("loop over `%s`" % norm(it))
+            for x in self.loop(a, st, fi, (lo, sp.expand(hi - lo)), 0):
+                yield x
+        else:
+            raise _NoRec("statement %s at line %s" % (type(a).__name__, a.lineno))
+
+    def loop(self, a, st, fi, rng, j):
+        """one visit of the loop head; rng = (start, trip count) for a counted `for`, None for `while`"""
+        if rng is not None:
+            t = self.rel(ast.Lt, sp.Integer(j), rng[1])
+        else:
+            t = self.truth(a.test, st, fi)
+        for b, s2 in self.fork(t, st):
+            if not b:
+                for x in self.block(a.orelse, s2, fi):
+                    yield x
+                continue
+            n = s2.bodies.get(id(a), 0)
+            if n >= self.max_body:
+                continue                    # bounded exploration: this path is not followed further
+            s2.bodies[id(a)] = n + 1
+            if rng is not None:
+                s2.vars[a.target.id] = sp.expand(rng[0] + j)
+            for status, s3 in self.block(a.body, s2, fi):
+                if status[0] in ("next", "continue"):
+                    for x in self.loop(a, s3, fi, rng, j + 1):
+                        yield x
+                elif status[0] == "break":
+                    yield ("next",), s3
+                else:
+                    yield status, s3
+
+    def fork(self, t, st):
+        if isinstance(t, bool):
+            yield t, st
+            return
+        known = _implied(t, st.cons)
+        if known is not None:
+            yield known, st
+            return
+        for b in (True, False):
+            s2 = st.copy()
+            s2.cons.append((t, b))
+            self.learn(t, b, s2)
+            yield b, s2
+
+    def learn(self, t, b, st):
+        """a decided membership test on the caller's **kw is remembered in the dictionaries that are layered over it"""
+        if _head(t) == "IN":
+            for v in st.vars.values():
+                if isinstance(v, _Kw) and v.base is not None and v.base == t.args[1]:
+                    v.known_in[str(t.args[0])] = b
+        if _head(t) == "OR" and not b:
+            for x in t.args:
+                self.learn(x, False, st)
+        if _head(t) == "AND" and b:
+            for x in t.args:
+                self.learn(x, True, st)
+        if _head(t) == "NOT":
+            self.learn(t.args[0], not b, st)
+
+    def expr_stmt(self, e, st, fi):
+        if isinstance(e, ast.Call) and isinstance(e.func, ast.Attribute) and isinstance(e.func.value, ast.Name):
+            recv = st.vars.get(e.func.value.id)
+            nm = e.func.attr
+            if isinstance(recv, list) and nm == "append" and len(e.args) == 1:
+                recv.append(self.ev(e.args[0], st, fi))
+            elif isinstance(recv, list) and nm == "extend" and len(e.args) == 1:
+                v = self.ev(e.args[0], st, fi)
+                if not isinstance(v, (list, tuple)):
+                    raise _NoRec("`%s`" % norm(e))
+                recv.extend(v)
+            elif isinstance(recv, (_Kw, dict)) and nm == "update":
+                uargs = [self.ev(x, st, fi) for x in e.args]
+                if isinstance(recv, dict) and any(isinstance(x, _Kw) for x in uargs):
+                    recv = st.vars[e.func.value.id] = _Kw(explicit=recv)
+                self.kw_update(recv, uargs, {k.arg: self.ev(k.value, st, fi) for k in e.keywords if k.arg})
+            elif isinstance(recv, (_Kw, dict)) and nm == "setdefault" and len(e.args) == 2:
+                k, v = self.ev(e.args[0], st, fi), self.ev(e.args[1], st, fi)
+                if isinstance(recv, dict):
+                    recv.setdefault(k, v)
+                elif k not in recv.explicit:
+                    if recv.base is None or recv.known_in.get(repr(k)) is False:
+                        recv.explicit.setdefault(k, recv.defaults.pop(k, v))
+                    else:
+                        recv.defaults.setdefault(k, v)
+        # every other expression statement (printing, logging) has no effect on the values followed here
+
+    def kw_update(self, recv, args, kws):
+        srcs = list(args) + ([kws] if kws else [])
+        for o in srcs:
+            if isinstance(recv, dict):
+                if not isinstance(o, dict):
+                    raise _NoRec("dict.update with %r" % (o,))
+                recv.update(o)
+            elif isinstance(o, dict):
+                recv.explicit.update(o)
+            elif isinstance(o, _Kw):
+                if o.base is not None and recv.base is not None and o.base != recv.base:
+                    raise _NoRec("two unknown dictionaries merged")
+                if o.base is not None:
+                    # entries of recv stay visible only where the unknown dictionary has no such key
+                    low = dict(recv.defaults)
+                    low.update(recv.explicit)
+                    low.update(o.defaults)
+                    recv.explicit, recv.defaults, recv.base = dict(o.explicit), low, o.base
+                    recv.known_in = dict(o.known_in)
+                else:
+                    recv.explicit.update(o.defaults)
+                    recv.explicit.update(o.explicit)
+            else:
+                raise _NoRec("dict.update with %r" % (o,))
+
+    def assign(self, t, v, st, fi):
+        if isinstance(t, ast.Name):
+            st.vars[t.id] = v
+        elif isinstance(t, (ast.Tuple, ast.List)):
+            if isinstance(v, sp.Basic) and _head(v).startswith("C_"):
+                v = tuple(ITEM(v, sp.Integer(k)) for k in range(len(t.elts)))
+            if not isinstance(v, (tuple, list)) or len(v) != len(t.elts):
+                raise _NoRec("unpacking into `%s`" % norm(t))
+            for x, y in zip(t.elts, v):
+                self.assign(x, y, st, fi)
+        elif isinstance(t, ast.Subscript) and isinstance(t.value, ast.Name) and isinstance(st.vars.get(t.value.id), (dict, _Kw)):
+            k = self.ev(t.slice, st, fi)
+            d = st.vars[t.value.id]
+            if isinstance(d, dict):
+                d[k] = v
+            else:
+                d.explicit[k] = v
+        else:
+            raise _NoRec("assignment to `%s`" % norm(t))
+
+    # -- tests -----------------------------------------------------------------
+    def rel(self, op, a, b):
+        if isinstance(a, sp.Basic) and isinstance(b, sp.Basic):
+            d = sp.expand(a - b)
+            if d.is_number and d.is_real:
+                return bool(_CMP[op](d, 0))
+            return REL[op](a, b)
+        raise _NoRec("comparison of %r and %r" % (a, b))
+
+    def truth(self, e, st, fi):
+        """python bool when the state decides the test, else a condition term"""
+        if isinstance(e, ast.UnaryOp) and isinstance(e.op, ast.Not):
+            t = self.truth(e.operand, st, fi)
+            return (not t) if isinstance(t, bool) else (t.args[0] if _head(t) == "NOT" else NOTF(t))
+        if isinstance(e, ast.BoolOp):
+            vals = []
+            for x in e.values:
+                t = self.truth(x, st, fi)
+                if isinstance(t, bool):
+                    if t != isinstance(e.op, ast.And):
+                        return t                     # short circuit
+                    continue
+                vals.append(t)
+            if not vals:
+                return isinstance(e.op, ast.And)
+            return vals[0] if len(vals) == 1 else (ANDF if isinstance(e.op, ast.And) else ORF)(*vals)
+        v = self.ev(e, st, fi)
+        if isinstance(v, bool):
+            return v
+        if v is None:
+            return False
+        if isinstance(v, (list, tuple, dict, str)):
+            return bool(v)
+        if isinstance(v, sp.Basic):
+            if v.is_number:
+                return bool(v != 0)
+            return v
+        if isinstance(v, _Opq):
+            return sp.Symbol("TEST<%s>" % norm(e))
+        raise _NoRec("test `%s`" % norm(e))
+
+    # -- expressions -------------------------------------------------------
+    def ev(self, e, st, fi):
+        if isinstance(e, ast.Constant):
+            v = e.value
+            if isinstance(v, bool) or v is None or isinstance(v, str) or v is Ellipsis:
+                return v
+            if isinstance(v, int):
+                return sp.Integer(v)
+            if isinstance(v, float):
+                return sp.Rational(repr(v))
+            return _Opq("const")
+        if isinstance(e, ast.Name):
+            if e.id in st.vars:
+                return st.vars[e.id]
+            full = self.repo.resolve_name(fi.module, e.id)
+            if full == "numpy.newaxis":
+                return None
+            return _Opq("mod:" + full)
+        if isinstance(e, ast.Attribute):
+            d = dotted_name(e)
+            if d and d.split(".")[0] not in st.vars:
+                full = self.repo.resolve_name(fi.module, d)
+                if full == "numpy.newaxis":
+                    return None
+                return _Opq("mod:" + full)
+            b = self.ev(e.value, st, fi)
+            if isinstance(b, sp.Basic):
+                if e.attr == "size":
+                    return _csize(b)
+                if e.attr == "shape":
+                    return _Shape(b)
+                if e.attr == "ndim":
+                    return _F("NDIM")(b)
+                if e.attr in ("T", "real"):
+                    return b if e.attr == "real" else _F("TRANSPOSE")(b)
+                return _F("ATTR_" + e.attr)(b)
+            if isinstance(b, _Opq):
+                return _Opq(b.text + "." + e.attr)
+            raise _NoRec("attribute `%s`" % norm(e))
+        if isinstance(e, (ast.Tuple, ast.List)):
+            vals = [self.ev(x, st, fi) for x in e.elts]
+            return tuple(vals) if isinstance(e, ast.Tuple) else vals
+        if isinstance(e, ast.Dict):
+            if any(k is None for k in e.keys):
+                raise _NoRec("dict display with **")
+            return {self.ev(k, st, fi): self.ev(v, st, fi) for k, v in zip(e.keys, e.values)}
+        if isinstance(e, ast.Subscript):
+            return self.subscript(self.ev(e.value, st, fi), e.slice, st, fi, e)
+        if isinstance(e, ast.BinOp):
+            return self.binop(e.op, self.ev(e.left, st, fi), self.ev(e.right, st, fi))
+        if isinstance(e, ast.UnaryOp):
+            if isinstance(e.op, ast.Not):
+                t = self.truth(e, st, fi)
+                return t
+            v = self.ev(e.operand, st, fi)
+            if isinstance(e.op, ast.USub) and isinstance(v, sp.Basic):
+                return -v
+            if isinstance(e.op, ast.UAdd):
+                return v
+            if isinstance(e.op, ast.Invert) and isinstance(v, sp.Basic):
+                return NOTF(v)
+            raise _NoRec("unary operator in `%s`" % norm(e))
+        if isinstance(e, ast.BoolOp):
+            return self.truth(e, st, fi)
+        if isinstance(e, ast.Compare):
+            if len(e.ops) != 1:
+                raise _NoRec("chained comparison")
+            op = e.ops[0]
+            a, b = self.ev(e.left, st, fi), self.ev(e.comparators[0], st, fi)
+            if isinstance(op, (ast.Is, ast.IsNot)):
+                if a is None or b is None:
+                    other = b if a is None else a
+                    if isinstance(other, _Opq):
+                        raise _NoRec("identity test on an uninterpreted value")
+                    r = other is None
+                else:
+                    r = a is b
+                return r if isinstance(op, ast.Is) else not r
+            if isinstance(op, (ast.In, ast.NotIn)):
+                if isinstance(b, (dict, list, tuple)):
+                    r = a in b
+                elif isinstance(b, _Kw):
+                    if a in b.explicit or a in b.defaults:
+                        r = True
+                    elif b.base is None:
+                        r = False
+                    elif repr(a) in b.known_in or str(_t(a)) in b.known_in:
+                        r = b.known_in.get(str(_t(a)), b.known_in.get(repr(a)))
+                    else:
+                        r = INF(_t(a), b.base)
+                else:
+                    raise _NoRec("membership test `%s`" % norm(e))
+                if isinstance(op, ast.In):
+                    return r
+                return (not r) if isinstance(r, bool) else NOTF(r)
+            if type(op) in _CMP:
+                if isinstance(a, (str, bool)) or isinstance(b, (str, bool)) or a is None or b is None:
+                    if isinstance(op, (ast.Eq, ast.NotEq)):
+                        return (a == b) == isinstance(op, ast.Eq)
+                if isinstance(a, _Shape) and isinstance(b, _Shape):
+                    return REL[type(op)](_t(a), _t(b))
+                if isinstance(a, (int,)):
+                    a = sp.Integer(a)
+                return self.rel(type(op), a, b)
+            raise _NoRec("comparison `%s`" % norm(e))
+        if isinstance(e, ast.IfExp):
+            t = self.truth(e.test, st, fi)
+            if isinstance(t, bool):
+                return self.ev(e.body if t else e.orelse, st, fi)
+            known = _implied(t, st.cons)
+            if known is not None:
+                return self.ev(e.body if known else e.orelse, st, fi)
+            return _F("ITE")(t, _t(self.ev(e.body, st, fi)), _t(self.ev(e.orelse, st, fi)))
+        if isinstance(e, ast.Call):
+            return self.call(e, st, fi)
+        if isinstance(e, ast.JoinedStr):
+            return _Opq("str")
+        raise _NoRec("expression `%s`" % norm(e)[:60])
+
+    def subscript(self, b, sl, st, fi, e):
+        if isinstance(sl, ast.Slice):
+            lo, hi, stp = [(self.ev(x, st, fi) if x is not None else None) for x in (sl.lower, sl.upper, sl.step)]
+            if isinstance(b, (list, tuple)) and all(x is None or isinstance(x, sp.Integer) for x in (lo, hi, stp)):
+                return b[slice(*[None if x is None else int(x) for x in (lo, hi, stp)])]
+            if isinstance(b, sp.Basic):
+                if lo is None and hi is None and stp is None:
+                    return b
+                return SLICE(b, _t(lo), _t(hi), _t(stp))
+            raise _NoRec("slice `%s`" % norm(e))
+        if isinstance(sl, ast.Tuple):
+            parts = []
+            for x in sl.elts:
+                if isinstance(x, ast.Slice):
+                    if x.lower is None and x.upper is None and x.step is None:
+                        parts.append(sp.Symbol(":"))
+                    else:
+                        parts.append(SLICE(sp.Symbol(":"), *[_t(self.ev(y, st, fi) if y is not None else None) for y in (x.lower, x.upper, x.step)]))
+                else:
+                    v = self.ev(x, st, fi)
+                    parts.append(sp.Symbol("newaxis") if v is None else (sp.Symbol("...") if v is Ellipsis else _t(v)))
+            if isinstance(b, sp.Basic):
+                return _F("IDXN")(b, *parts)
+            raise _NoRec("subscript `%s`" % norm(e))
+        i = self.ev(sl, st, fi)
+        if isinstance(b, (list, tuple)):
+            if isinstance(i, sp.Integer) and -len(b) <= int(i) < len(b):
+                return b[int(i)]
+            raise _NoRec("subscript `%s`" % norm(e))
+        if isinstance(b, dict):
+            if i in b:
+                return b[i]
+            raise _NoRec("key of `%s`" % norm(e))
+        if isinstance(b, _Kw):
+            return self.kw_get(b, i, None, must=True)
+        if isinstance(b, _Shape):
+            if isinstance(i, sp.Integer):
+                if self.one_d and int(i) == 0:
+                    return _csize(b.arr)
+                return DIM(b.arr, i)
+            raise _NoRec("subscript `%s`" % norm(e))
+        if isinstance(b, sp.Basic):
+            if _head(b).startswith("C_") and isinstance(i, sp.Integer):
+                return ITEM(b, i)
+            if isinstance(i, sp.Basic):
+                return _idx(b, i)
+            if i is None:
+                return _F("IDXN")(b, sp.Symbol("newaxis"))
+            if i is Ellipsis:
+                return b
+        if isinstance(b, _Opq):
+            return _Opq(b.text + "[]")
+        raise _NoRec("subscript `%s`" % norm(e))
+
+    def kw_get(self, d, k, default, must=False):
+        if isinstance(d, dict):
+            if k in d:
+                return d[k]
+            if must:
+                raise _NoRec("missing key %r" % (k,))
+            return default
+        if k in d.explicit:
+            return d.explicit[k]
+        inb = d.known_in.get(str(_t(k)))
+        if d.base is None or inb is False:
+            if k in d.defaults:
+                return d.defaults[k]
+            if must:
+                raise _NoRec("missing key %r" % (k,))
+            return default
+        low = d.defaults.get(k, default)
+        if inb is True:
+            return _F("GET")(d.base, _t(k))
+        return _F("GET")(d.base, _t(k), _t(low))
+
+    def binop(self, op, a, b):
+        if isinstance(op, ast.Add) and isinstance(a, (list, tuple)) and isinstance(b, type(a)):
+            return a + b
+        if isinstance(op, ast.Mod) and isinstance(a, (str, _Opq)):
+            return _Opq("str")
+        if isinstance(a, bool) or isinstance(b, bool):
+            raise _NoRec("arithmetic on a flag")
+        if isinstance(a, sp.Basic) and isinstance(b, sp.Basic):
+            if isinstance(op, ast.Add):
+                return a + b
+            if isinstance(op, ast.Sub):
+                return a - b
+            if isinstance(op, ast.Mult):
+                return a * b
+            if isinstance(op, ast.Div):
+                return a / b
+            if isinstance(op, ast.Pow):
+                return a ** b
+            if isinstance(op, ast.BitAnd) and (_is_mask(a) or _is_mask(b)):
+                return ANDF(a, b)
+            if isinstance(op, ast.BitOr) and (_is_mask(a) or _is_mask(b)):
+                return ORF(a, b)
+            return _F("OP_" + type(op).__name__)(a, b)
+        if isinstance(a, _Opq) or isinstance(b, _Opq):
+            return _Opq("binop")
+        raise _NoRec("arithmetic on %r and %r" % (a, b))
+
+    def call(self, c, st, fi):
+        f = c.func
+        nm = call_name(c)
+        full = None
+        recv = None
+        if isinstance(f, ast.Name):
+            v = st.vars.get(f.id)
+            if isinstance(v, _Opq) and v.text.startswith("mod:"):
+                full = v.text[4:]
+            elif v is None and f.id not in st.vars:
+                full = self.repo.resolve_name(fi.module, f.id)
+            else:
+                raise _NoRec("call of the local `%s`" % f.id)
+        elif isinstance(f, ast.Attribute):
+            d = dotted_name(f)
+            if d and d.split(".")[0] not in st.vars:
+                full = self.repo.resolve_name(fi.module, d)
+            else:
+                recv = self.ev(f.value, st, fi)
+                if isinstance(recv, _Opq) and recv.text.startswith("mod:"):
+                    full, recv = recv.text[4:] + "." + nm, None
+        else:
+            raise _NoRec("call `%s`" % norm(c)[:60])
+        args = [self.ev(a, st, fi) for a in c.args if not isinstance(a, ast.Starred)]
+        if any(isinstance(a, ast.Starred) for a in c.args):
+            raise _NoRec("call with *args")
+        kws = {}
+        star = None
+        for k in c.keywords:
+            if k.arg:
+                kws[k.arg] = self.ev(k.value, st, fi)
+            else:
+                star = self.ev(k.value, st, fi)
+                if not isinstance(star, (_Kw, dict)):
+                    raise _NoRec("call with ** of %r" % (star,))
+        # methods on followed values
+        if recv is not None:
+            if isinstance(recv, (dict, _Kw)):
+                if nm == "get" and args:
+                    return self.kw_get(recv, args[0], args[1] if len(args) > 1 else None)
+                if nm == "copy":
+                    return dict(recv) if isinstance(recv, dict) else recv.copy()
+                raise _NoRec("dictionary method `%s`" % nm)
+            if isinstance(recv, list):
+                raise _NoRec("list method `%s` in an expression" % nm)
+            if isinstance(recv, sp.Basic):
+                return self.np_call(nm, [recv] + args, kws, c, method=True)
+            if isinstance(recv, _Opq):
+                return _Opq("%s.%s()" % (recv.text, nm))
+            raise _NoRec("method `%s` of %r" % (nm, recv))
+        if full is not None and self.repo.has(full):
+            tgt = self.repo.func(full)
+            if tgt.module is fi.module and tgt.name.startswith("_") and tgt.qualname != fi.qualname:
+                return self.enter(tgt, args, kws, star, st)
+            return self.package_call(tgt, args, kws, star)
+        if full is not None and (full.startswith("numpy") or full.startswith("math.") or full.startswith("scipy")):
+            if star is not None:
+                raise _NoRec("numpy call with **")
+            return self.np_call(nm, args, kws, c, method=False, full=full)
+        # builtins
+        if isinstance(f, ast.Name):
+            if nm == "len" and len(args) == 1:
+                a = args[0]
+                if isinstance(a, (list, tuple, dict, str)):
+                    return sp.Integer(len(a))
+                if isinstance(a, _Shape):
+                    return _F("NDIM")(a.arr)
+                if isinstance(a, sp.Basic):
+                    return _csize(a) if self.one_d else DIM(a, sp.Integer(0))
+            if nm in ("float", "int") and len(args) == 1 and isinstance(args[0], sp.Basic):
+                return args[0] if nm == "float" else _F("INT")(args[0])
+            if nm == "abs" and len(args) == 1 and isinstance(args[0], sp.Basic):
+                return ABSF(args[0])
+            if nm == "dict":
+                out = _Kw()
+                self.kw_update(out, args, kws)
+                if star is not None:
+                    self.kw_update(out, [star], {})
+                return out if out.base is not None else dict(out.explicit)
+            if nm in ("list", "tuple") and len(args) <= 1:
+                v = args[0] if args else []
+                if isinstance(v, (list, tuple)):
+                    return list(v) if nm == "list" else tuple(v)
+            if nm in ("print", "repr", "str", "isinstance", "type"):
+                return _Opq(nm)
+        return _Opq("call:" + (full or nm or "?"))
+
+    def np_call(self, nm, args, kws, c, method, full=None):
+        a0 = args[0] if args else None
+        if nm in (self.IDENT_M if method else self.IDENT_F) and isinstance(a0, sp.Basic):
+            return a0
+        if nm in ("sqrt",) and isinstance(a0, sp.Basic) and len(args) == 1:
+            return sp.sqrt(a0)
+        if nm in ("abs", "absolute", "fabs") and isinstance(a0, sp.Basic) and len(args) == 1:
+            return ABSF(a0)
+        if nm == "arange" and len(args) == 1 and isinstance(a0, sp.Basic) and not kws:
+            return ARANGE(a0)
+        if nm in ("where", "nonzero", "flatnonzero") and len(args) == 1 and isinstance(a0, sp.Basic):
+            return WHERE(a0) if nm == "flatnonzero" else (WHERE(a0),)
+        if nm == "count_nonzero" and len(args) == 1 and isinstance(a0, sp.Basic):
+            return COUNT(a0)
+        if nm == "argsort" and isinstance(a0, sp.Basic) and len(args) == 1 and not kws:
+            return ARGSORT(a0)
+        if nm in REDUCE and isinstance(a0, sp.Basic):
+            rest = list(args[1:])
+            kws = dict(kws)
+            if rest and "axis" not in kws:
+                kws["axis"] = rest.pop(0)
+            if nm == "sum" and _is_mask(a0) and not rest and not kws:
+                return COUNT(a0)
+            if not rest:
+                return _F(REDUCE[nm])(a0, *[_F("KW_" + k)(_t(v)) for k, v in sorted(kws.items())])
+        if nm == "size" and len(args) == 1 and isinstance(a0, sp.Basic):
+            return _csize(a0)
+        if nm == "take" and len(args) == 2 and not kws and all(isinstance(x, sp.Basic) for x in args):
+            return _idx(args[0], args[1])
+        if nm == "compress" and len(args) == 2 and not kws and all(isinstance(x, sp.Basic) for x in args):
+            return _idx(args[1], args[0]) if not method else _idx(args[0], args[1])
+        if nm == "any" and len(args) == 1 and not kws and _is_mask(a0):
+            return REL[ast.NotEq](COUNT(a0), sp.Integer(0))
+        name = "C_" + (full or ("method." + nm))
+        return _F(name)(*([_t(a) for a in args] + [_F("KW_" + k)(_t(v)) for k, v in sorted(kws.items())]))
+
+    def package_call(self, tgt, args, kws, star):
+        pos = [p for p in tgt.params if not p.startswith("*")]
+        if len(args) > len(pos):
+            raise _NoRec("too many arguments for %s" % tgt.name)
+        bound = dict(zip(pos, args))
+        bound.update(kws)
+        terms = [_F("KW_" + k)(_t(v)) for k, v in sorted(bound.items())]
+        if star is not None:
+            s = star if isinstance(star, _Kw) else _Kw(explicit=star)
+            dup = set(s.explicit) & set(bound)
+            if dup:
+                raise _NoRec("keyword given twice: %s" % sorted(dup))
+            terms += _kwargs_terms(s)
+        return _F("C_" + tgt.qualname)(*terms)
+
+    def enter(self, tgt, args, kws, star, st):
+        if star is not None:
+            raise _NoRec("helper called with **")
+        if len(self.entered) > 8 or tgt.qualname in self.entered:
+            raise _NoRec("helper nesting")
+        pos = [p for p in tgt.params if not p.startswith("*")]
+        init = dict(zip(pos, args))
+        init.update(kws)
+        tmp = _PState()
+        for p in pos:
+            if p not in init:
+                if p not in tgt.defaults:
+                    raise _NoRec("argument %s of %s" % (p, tgt.name))
+                init[p] = self.ev(tgt.defaults[p], tmp, tgt)
+        s0 = _PState()
+        s0.vars = init
+        s0.cons = list(st.cons)
+        self.entered.add(tgt.qualname)
+        self.seen_helpers.add(tgt.qualname)
+        try:
+            outs = [(status, s) for status, s in self.block(tgt.node.body, s0, tgt) if status[0] != "raise"]
+        finally:
+            self.entered.discard(tgt.qualname)
+        if len(outs) != 1 or len(outs[0][1].cons) != len(st.cons):
+            raise _NoRec("the helper %s branches on a test the state does not decide" % tgt.name)
+        status = outs[0][0]
+        return status[1] if status[0] == "return" else None
+
+
+def _implied(t, cons):
+    """truth of condition t when the path constraints decide it (three-valued evaluation over the atomic facts), else None"""
+    facts = {}
+    for c, tr in cons:
+        facts[c] = tr
+        for x, xt in _flat_cons(c, tr):
+            facts[x] = xt
+
+    def tv(x):
+        if x in facts:
+            return facts[x]
+        h = _head(x)
+        if h == "NOT":
+            v = tv(x.args[0])
+            return None if v is None else (not v)
+        if h in ("AND", "OR"):
+            vs = [tv(y) for y in x.args]
+            if h == "AND":
+                return False if False in vs else (True if all(v is True for v in vs) else None)
+            return True if True in vs else (False if all(v is False for v in vs) else None)
+        return None
+    # unit propagation: a false conjunction whose other members hold makes the last one false (dually for a true disjunction)
+    for _ in range(4):
+        grew = False
+        for c, tr in list(facts.items()):
+            h = _head(c)
+            if (h == "AND" and tr is False) or (h == "OR" and tr is True):
+                open_ = [y for y in c.args if tv(y) is None]
+                rest_ok = all(tv(y) is (h == "AND") for y in c.args if tv(y) is not None)
+                if len(open_) == 1 and rest_ok:
+                    y, val = open_[0], (h == "OR")
+                    while _head(y) == "NOT":
+                        y, val = y.args[0], not val
+                    if y not in facts:
+                        facts[y] = val
+                        grew = True
+        if not grew:
+            break
+    return tv(t)
+
+
+def _as_load(t):
+    import copy
+    t2 = copy.deepcopy(t)
+    for x in ast.walk(t2):
+        if hasattr(x, "ctx"):
+            x.ctx = ast.Load()
+    return t2
+
+
+def _kwterms(t):
+    """{keyword: value term} of a package-call term C_<qualname>(KW_x(v), ...)"""
+    out = {}
+    for a in t.args:
+        h = _head(a)
+        if h.startswith("KW_"):
+            out[h[3:]] = a.args[0]
+        else:
+            out["?" + h] = a
+    return out
+
+
+def _stat_role(t, wmom_q):
+    """classify a term as a statistic of a sample: (role, data term, weights term or None) with role in mean / sdev / err, else None.
+    unweighted: D.mean(), D.std(), D.std()/sqrt(n); weighted: the components of wmom(D, W, calcerr=True, sdev=True), which returns
+    (mean, error, deviation)"""
+    h = _head(t)
+    if h == "MEAN" and len(t.args) == 1:
+        return ("mean", t.args[0], None)
+    if h == "STD" and len(t.args) == 1:
+        return ("sdev", t.args[0], None)
+    if h == "ITEM" and _head(t.args[0]) == "C_" + wmom_q:
+        kw = _kwterms(t.args[0])
+        d, w = kw.get("arrin"), kw.get("weights_in")
+        extra = set(kw) - {"arrin", "weights_in", "calcerr", "sdev", "inputmean"}
+        if d is None or w is None or extra or kw.get("inputmean", NONE_) != NONE_ or kw.get("sdev") != TRUE_:
+            return None
+        k = int(t.args[1])
+        if k == 0:
+            return ("mean", d, w)
+        if k == 2:
+            return ("sdev", d, w)
+        if k == 1 and kw.get("calcerr") == TRUE_:
+            return ("err", d, w)
+        return None
+    stds = [a for a in t.atoms(sp.core.function.AppliedUndef) if _head(a) == "STD" and len(a.args) == 1] if isinstance(t, sp.Basic) else []
+    for a in stds:
+        if sp.expand(t - a / sp.sqrt(_csize(a.args[0]))) == 0:
+            return ("err", a.args[0], None)
+    return None
+
+
+def _count_fact(t, truth):
+    """(mask, kind, other) for a path constraint about the number of selected points: kind in zero / nonzero / eq / ne / ge / lt"""
+    h = _head(t)
+    if h == "NOT":
+        return _count_fact(t.args[0], not truth)
+    if h not in RELNAMES:
+        return None
+    a, b = t.args
+    if _head(a) != "COUNT":
+        if _head(b) != "COUNT":
+            return None
+        a, b = b, a
+        h = {"LT": "GT", "LE": "GE", "GT": "LT", "GE": "LE", "EQ": "EQ", "NE": "NE"}[h]
+    if not truth:
+        h = NEG[h]
+    c = a.args[0]
+    if b == 0:
+        return (c, {"EQ": "zero", "LE": "zero", "NE": "nonzero", "GT": "nonzero"}.get(h, "other"), b)
+    if b == 1 and h in ("LT", "GE"):
+        return (c, "zero" if h == "LT" else "nonzero", b)
+    return (c, {"EQ": "eq", "NE": "ne", "GE": "ge", "LT": "lt"}.get(h, "other"), b)
+
+
+def _int_bounds(cons, n, lo=0):
+    """bounds [lo, hi] that the path constraints put on the integer n (n >= lo assumed), and whether every constraint that mentions n was read"""
+    hi = None
+    read = True
+    for t, truth in cons:
+        h = _head(t)
+        if not isinstance(t, sp.Basic) or n not in t.free_symbols:
+            continue
+        if h not in RELNAMES:
+            read = False
+            continue
+        d = sp.expand(t.args[0] - t.args[1])
+        p, q = d.coeff(n, 1), d.coeff(n, 0)
+        if sp.expand(d - p * n - q) != 0 or not (p.is_Integer and q.is_Integer) or abs(int(p)) != 1:
+            read = False
+            continue
+        if not truth:
+            h = NEG[h]
+        if int(p) == -1:
+            q = -q
+            h = {"LT": "GT", "LE": "GE", "GT": "LT", "GE": "LE", "EQ": "EQ", "NE": "NE"}[h]
+        v = -int(q)                     # n (h) v
+        if h == "LT":
+            hi = v - 1 if hi is None else min(hi, v - 1)
+        elif h == "LE":
+            hi = v if hi is None else min(hi, v)
+        elif h == "GT":
+            lo = max(lo, v + 1)
+        elif h == "GE":
+            lo = max(lo, v)
+        elif h == "EQ":
+            lo = max(lo, v)
+            hi = v if hi is None else min(hi, v)
+        elif h == "NE":
+            if v == lo:
+                lo += 1
+            if hi is not None and v == hi:
+                hi -= 1
+    return lo, hi, read
+
+
+class _Agg:
+    """verdict of a rule instance over all paths: False as soon as one path contradicts it, else None if one could not be read"""
+
+    def __init__(self):
+        self.v = {}
+
+    def put(self, key, ok, why=""):
+        if callable(why):
+            why = why() if ok is not True else ""
+        cur = self.v.get(key)
+        if cur is None:
+            self.v[key] = [ok, why if ok is not True else "", 1]
+            return
+        cur[2] += 1
+        if cur[0] is False:
+            return
+        if ok is False or (ok is None and cur[0] is True):
+            cur[0], cur[1] = ok, why
+
+    def get(self, key):
+        return self.v.get(key, [None, "no path reached this rule", 0])
 
 
 def clipping(chk, repo):
     fi = repo.func(ST + "sigma_clip")
     chk.analysed_unit(fi.qualname)
-    cfg = cfg_of(fi)
-    view = cfg.view()
-    loop = [n for n in cfg.nodes if n.kind == "loop" and isinstance(n.ast, ast.For)]
-    chk.ob("R18.clip", "sigma_clip::iteration-bound", len(loop) == 1 and norm(loop[0].ast.iter) == "range(1, niter + 1)", fi.where(), "at most niter clipping passes (niter=0 gives none)")
-    if len(loop) != 1:
+    wmom_q = ST + "wmom"
+    A, W, NITER, NSIG = sp.Symbol("A"), sp.Symbol("W"), sp.Symbol("niter", integer=True), sp.Symbol("nsig")
+    GE_, GI_ = sp.Symbol("get_err"), sp.Symbol("get_indices")
+    pos = [p for p in fi.params if not p.startswith("*")]
+    need = ("weights", "niter", "nsig", "get_err", "get_indices")
+    agg = _Agg()
+    npaths = 0
+    norec = None
+    ALL = ARANGE(SIZE(A))
+    where = fi.where()
+    if not all(p in pos for p in need):
+        norec = "the public parameters %s are not all present" % (need,)
+    else:
+        try:
+            for w in (None, W):
+                init = {pos[0]: A, "weights": w, "niter": NITER, "nsig": NSIG, "get_err": GE_, "get_indices": GI_}
+                for p in pos[1:]:
+                    if p not in init:
+                        init[p] = {} if p == "extra" else sp.Symbol(p)
+                for p in fi.params:
+                    if p.startswith("**"):
+                        init[p[2:]] = {}
+                px = _PX(repo, fi, one_d=True, max_body=3)
+                outs = px.returns(init)
+                for q in px.seen_helpers:
+                    chk.analysed_unit(q)
+                for rv, st in outs:
+                    npaths += 1
+                    _clip_path(agg, rv, st, w, A, W, NITER, NSIG, GE_, GI_, ALL, wmom_q)
+        except (_NoRec, RecursionError, TypeError, ValueError, AttributeError, KeyError, IndexError) as ex:
+            norec = str(ex)
+    if npaths == 0 and norec is None:
+        norec = "no path returns"
+    tail = " [not read: %s]" % norec if norec else ""
+    chk.ob("R18.clip", "sigma_clip::structure", None if norec else True, where,
+           "every path through the routine (up to 3 passes of the loop, with and without weights) was followed in the term domain: %d paths%s" % (npaths, tail))
+    texts = [
+        ("sigma_clip::iteration-bound", "at most niter clipping passes (niter=0 gives none), and the loop only gives up for lack of passes after exactly niter of them"),
+        ("sigma_clip::survivors-are-subset-of-current", "the surviving set is the current set restricted by the keep selection (indices = indices[keep]), starting from all points"),
+        ("sigma_clip::lock-step::next pass", "every pass measures the points of the current surviving set against the statistics of that same set"),
+        ("sigma_clip::lock-step::return", "the reported mean/deviation/error are those of the reported surviving set on every path"),
+        ("sigma_clip::break-before-update", "on the early exits too (everything clipped / nothing changed) the reported statistics belong to the reported set"),
+        ("sigma_clip::strict-keep-test", "points are kept when |x - mean| < nsig * deviation, strictly"),
+        ("sigma_clip::termination-tests", "the loop stops only when everything would be clipped, nothing changed, or niter passes are done"),
+        ("sigma_clip::previous-count-tracked", "the number of kept points is compared with the size of the current surviving set"),
+        ("sigma_clip::result-order", "results are mean, deviation, [error], [indices] in this order"),
+        ("sigma_clip::optional-result::e", "the error is returned exactly under get_err"),
+        ("sigma_clip::optional-result::indices", "the indices are returned exactly under get_indices"),
+        ("sigma_clip::statistics[unweighted]", "without weights: mean, std and std/sqrt(n) of the subset"),
+        ("sigma_clip::statistics[weighted]", "with weights: wmom(subset, subset weights, calcerr=True, sdev=True) read as (mean, error, deviation)"),
+        ("sigma_clip::same-indices-for-data-and-weights", "data and weights are restricted by the same index set"),
+    ]
+    for key, text in texts:
+        ok, why, n = agg.get(key)
+        if norec:
+            ok, why = None, norec
+        chk.ob("R18.clip", key, ok, where, "%s (%d paths)%s" % (text, n, (": " + why) if why else ""))
+
+
+def _set_of(x, base, ALL):
+    """the index set J such that x is base[J] (ALL when x is base itself), else None"""
+    if x == base:
+        return ALL
+    if _head(x) == "IDX" and x.args[0] == base:
+        return x.args[1]
+    return None
+
+
+def _stat_like(t, wmom_q):
+    """is the term an arithmetic combination of statistics (mean / std / a component of wmom); what an index set or a selection
+    was computed from does not count"""
+    if not isinstance(t, sp.Basic):
+        return False
+    if isinstance(t, (sp.Add, sp.Mul, sp.Pow)):
+        return any(_stat_like(a, wmom_q) for a in t.args)
+    h = _head(t)
+    return h in ("MEAN", "STD", "VAR", "MEDIAN") or (h == "ITEM" and _head(t.args[0]) == "C_" + wmom_q)
+
+
+def _and3(*vals):
+    """three-valued conjunction: False wins, then None (not read), else True"""
+    vals = list(vals)
+    return False if any(v is False for v in vals) else (None if any(v is None for v in vals) else True)
+
+
+def _opaque_term(t, known=()):
+    """does the term contain something the term domain does not interpret (a call other than the known constructors, an unread test)"""
+    if not isinstance(t, sp.Basic):
+        return False
+    for a in t.atoms(sp.core.function.AppliedUndef):
+        h = _head(a)
+        if (h.startswith(("C_", "OP_", "ATTR_")) or h in ("IDXN", "ITE", "GET")) and h not in known:
+            return True
+    return any(str(x).startswith(("TEST<", "OPAQUE<")) for x in t.free_symbols)
+
+
+def _clip_path(agg, rv, st, w, A, W, NITER, NSIG, GE_, GI_, ALL, wmom_q):
+    cons = st.cons
+    ge, gi = _implied(GE_, cons), _implied(GI_, cons)
+    mentioned = set().union(*[c.free_symbols for c, _ in cons if isinstance(c, sp.Basic)]) if cons else set()
+    if not isinstance(rv, (list, tuple)) or len(rv) < 2 or not all(isinstance(x, sp.Basic) for x in rv):
+        agg.put("sigma_clip::result-order", None, lambda: "returned value %r" % (rv,))
         return
-    lp = loop[0]
-    upd = [n for n in cfg.nodes if n.kind == "stmt" and isinstance(n.ast, ast.Assign) and norm(n.ast.targets[0]) == "indices" and isinstance(n.ast.value, ast.Subscript)]
-    stats = [n for n in cfg.nodes if n.kind == "stmt" and isinstance(n.ast, ast.Assign) and isinstance(n.ast.value, ast.Call) and call_name(n.ast.value) == "_get_sigma_clip_stats"]
-    subs = [n for n in cfg.nodes if n.kind == "stmt" and isinstance(n.ast, ast.Assign) and isinstance(n.ast.value, ast.Call) and call_name(n.ast.value) == "_get_sigma_clip_subset"]
-    chk.ob("R18.clip", "sigma_clip::structure", len(upd) == 1 and len(stats) == 2 and len(subs) == 2, fi.where(), "one index-set update, two subset extractions and two statistics computations (initial + in-loop)")
-    if len(upd) == 1:
-        u = upd[0]
-        chk.ob("R18.clip", "sigma_clip::survivors-are-subset-of-current", norm(u.ast.value) == "indices[w]", fi.where(u.ast), "the surviving set is the current set restricted by the keep mask (indices = indices[w])")
-        exits = [cfg.exit, lp]
-        for tgt, name in ((lp, "next pass"), (cfg.exit, "return")):
-            esc_sub = view.reaches(u, tgt, avoiding=[n for n in subs])
-            esc_st = view.reaches(u, tgt, avoiding=[n for n in stats])
-            chk.ob("R18.clip", "sigma_clip::lock-step::%s" % name, not esc_sub and not esc_st, fi.where(u.ast),
-                   "after the surviving set changes, the subset and its statistics are recomputed before the %s: the reported mean/deviation/error always belong to the reported subset" % name)
-    # keep test: strict, on the current subset and current statistics
-    keep = [n for n in cfg.nodes if n.kind == "stmt" and isinstance(n.ast, ast.Assign) and isinstance(n.ast.value, ast.Call) and call_name(n.ast.value) == "where" and "nsig" in norm(n.ast.value)]
-    ok = len(keep) == 1 and norm(keep[0].ast.value.args[0]).replace("(", "").replace(")", "") == "np.abstarr - m < nsig * s"
-    chk.ob("R18.clip", "sigma_clip::strict-keep-test", ok, fi.where(keep[0].ast) if keep else fi.where(), "points are kept when |x - mean| < nsig * deviation, strictly, measured on the current subset (%s)" % (norm(keep[0].ast.value.args[0]) if keep else None))
-    brk = [(n, rules.controlling_tests(view, n)) for n in cfg.nodes if n.kind == "stmt" and isinstance(n.ast, ast.Break)]
-    conds = sorted(ts[0][0] for n, ts in brk if ts)
-    chk.ob("R18.clip", "sigma_clip::termination-tests", conds == ["w.size == 0", "w.size == nold"], fi.where(), "the loop stops when everything would be clipped or nothing changed (%s)" % conds)
-    if len(upd) == 1:
-        for n, ts in brk:
-            chk.ob("R18.clip", "sigma_clip::break-before-update::%s" % ts[0][0], view.reaches(n, upd[0]) is False and not view.reaches(upd[0], n, avoiding=[lp]), fi.where(n.ast), "the early exits are taken before the index set is touched in that pass")
-    nold = [norm(n.ast.value) for n in cfg.nodes if n.kind == "stmt" and isinstance(n.ast, ast.Assign) and norm(n.ast.targets[0]) == "nold"]
-    chk.ob("R18.clip", "sigma_clip::previous-count-tracked", sorted(nold) == ["arr.size", "w.size"], fi.where(), "nold follows the size of the surviving set (%s)" % nold)
-    # result wiring
-    apps = [norm(x.args[0]) for x in walk_no_nested(fi.node) if isinstance(x, ast.Call) and call_name(x) == "append" and norm(x.func.value) == "res"]
-    chk.ob("R18.clip", "sigma_clip::result-order", apps == ["m", "s", "e", "indices"], fi.where(), "results are appended as mean, deviation, [error], [indices] (%s)" % apps)
-    for nm, flag in (("e", "get_err"), ("indices", "get_indices")):
-        n = [n for n in cfg.nodes for c in rules.stmts_calls(n) if call_name(c) == "append" and c.args and norm(c.args[0]) == nm]
-        ok = len(n) == 1 and rules.controlling_tests(view, n[0])[:1] == [(flag, "T")]
-        chk.ob("R18.clip", "sigma_clip::optional-result::%s" % nm, ok, fi.where(), "%s is returned exactly under %s" % (nm, flag))
-    tgt = [norm(n.ast.targets[0]) for n in stats]
-    chk.ob("R18.clip", "sigma_clip::stats-unpack-order", tgt == ["(m, e, s)", "(m, e, s)"], fi.where(), "statistics are unpacked as (mean, error, deviation) both times")
-    st = repo.func(ST + "_get_sigma_clip_stats")
-    chk.analysed_unit(st.qualname)
-    cfg2 = cfg_of(st)
-    env = {}
-    for n in cfg2.nodes:
-        if n.kind == "stmt" and isinstance(n.ast, ast.Assign):
-            env[(norm(n.ast.targets[0]), dict(rules.controlling_tests(cfg2.view(), n)).get("weights is not None"))] = norm(n.ast.value)
-    want = {("(m, e, s)", "T"): "wmom(arr, weights, calcerr=True, sdev=True)", ("m", "F"): "arr.mean()", ("s", "F"): "arr.std()", ("e", "F"): "s / np.sqrt(arr.shape[0])"}
-    chk.ob("R18.clip", "_get_sigma_clip_stats::definitions", env == want, st.where(), "weighted: wmom(calcerr, sdev) in (mean, error, deviation) order; unweighted: mean, std, std/sqrt(n) (%s)" % env)
-    rets = [x for x in walk_no_nested(st.node) if isinstance(x, ast.Return)]
-    chk.ob("R18.clip", "_get_sigma_clip_stats::return-order", len(rets) == 1 and norm(rets[0].value) == "(m, e, s)", st.where(), "returns (mean, error, deviation)")
-    sb = repo.func(ST + "_get_sigma_clip_subset")
-    env = {(norm(x.targets[0]), norm(x.value)) for x in walk_no_nested(sb.node) if isinstance(x, ast.Assign)}
-    chk.ob("R18.clip", "_get_sigma_clip_subset::same-indices-for-data-and-weights", ("tarr", "arr[indices]") in env and ("tweights", "weights[indices]") in env, sb.where(), "data and weights are restricted by the same index set")
+    rv = list(rv)
+    roles = [_stat_role(t, wmom_q) for t in rv]
+    skey = "sigma_clip::statistics[%s]" % ("weighted" if w is not None else "unweighted")
+    known = ("C_" + wmom_q,)
+
+    def subset_of(x, base):
+        """the index set of the subset x of base; False when x is not read as a subset of base"""
+        j = _set_of(x, base, ALL)
+        return False if j is None else j
+
+    def chain_form(j):
+        return j == ALL or _is_index_array(j) or _head(j) == "WHERE" or _is_mask(j) or (_head(j) == "IDX" and j.args[0] == ALL)
+    # -- the reported set
+    extra = st.vars.get("extra")
+    I = extra.get("indices") if isinstance(extra, dict) else None
+    last = "set" if (_is_index_array(rv[-1]) or rv[-1] == ALL or (I is not None and rv[-1] == I)) else \
+        ("stat" if (roles[-1] is not None or _stat_like(rv[-1], wmom_q)) else "unknown")
+    last_is_set = last == "set"
+    if gi is True:
+        agg.put("sigma_clip::optional-result::indices", None if last == "unknown" else (last_is_set and (I is None or rv[-1] == I)),
+                lambda: "with get_indices the result ends with %s%s" % (str(rv[-1])[:200], "" if I is None else " while extra['indices'] is %s" % str(I)[:200]))
+        if last_is_set and I is None:
+            I = rv[-1]
+    elif gi is False:
+        agg.put("sigma_clip::optional-result::indices", None if last == "unknown" else not last_is_set, lambda: "without get_indices the result ends with %s" % str(rv[-1])[:200])
+    else:
+        # both values of get_indices follow this path: the result cannot be right for both
+        agg.put("sigma_clip::optional-result::indices", None if (GI_ in mentioned or last == "unknown") else False,
+                lambda: "the result does not depend on get_indices on this path (it ends with %s)" % str(rv[-1])[:80])
+    if last == "unknown":
+        agg.put("sigma_clip::result-order", None, lambda: "the last result is %s" % str(rv[-1])[:200])
+        return
+    vals = rv[:-1] if last_is_set else rv
+    vroles = roles[:-1] if last_is_set else roles
+    names = [r[0] if r else None for r in vroles]
+    if ge is True:
+        agg.put("sigma_clip::optional-result::e", len(vals) == 3, lambda: "with get_err %d statistics are returned" % len(vals))
+    elif ge is False:
+        agg.put("sigma_clip::optional-result::e", len(vals) == 2, lambda: "without get_err %d statistics are returned" % len(vals))
+    else:
+        agg.put("sigma_clip::optional-result::e", None if GE_ in mentioned else False, lambda: "the result does not depend on get_err on this path (%d statistics are returned)" % len(vals))
+    want = ["mean", "sdev", "err"][:len(vals)]
+    if None in names:
+        k = names.index(None)
+        # a value built from mean/std/wmom that is none of the three definitions contradicts them; anything else is not read
+        bad = False if (_stat_like(vals[k], wmom_q) and not _opaque_term(vals[k], known)) else None
+        agg.put(skey, bad, lambda: "result %d is %s" % (k, str(vals[k])[:300]))
+        agg.put("sigma_clip::result-order", None, lambda: "result %d is not one of the defined statistics: %s" % (k, str(vals[k])[:200]))
+        return
+    agg.put("sigma_clip::result-order", names == want, lambda: "the results are %s" % names)
+    if I is None:
+        I = _set_of(vroles[0][1], A, ALL)       # no set is reported on this path: the set the mean belongs to
+    if I is None or not chain_form(I):
+        agg.put("sigma_clip::lock-step::return", None, lambda: "the surviving set is %s and the mean is taken over %s" % (I, vroles[0][1]))
+        return
+    # -- statistics: definitions, and they belong to the reported set
+    agg.put(skey, all((r[2] is None) == (w is None) for r in vroles), lambda: "statistics %s weights although weights were %s" % ("without" if w is not None else "with", "given" if w is not None else "not given"))
+    dsets = [subset_of(r[1], A) for r in vroles]
+    wsets = [subset_of(r[2], W) for r in vroles if r[2] is not None]
+    sync = _and3(*[(None if j is False else j == I) for j in dsets + wsets])
+    agg.put("sigma_clip::lock-step::return", sync, lambda: "reported set %s, statistics taken over %s" % (I, sorted({str(r[1]) for r in vroles})))
+    if w is not None:
+        pairs = {(r[1], r[2]) for r in vroles if r[2] is not None}
+        agg.put("sigma_clip::same-indices-for-data-and-weights",
+                _and3(*[(None if (subset_of(d, A) is False or subset_of(x, W) is False) else subset_of(d, A) == subset_of(x, W)) for d, x in pairs]),
+                lambda: "statistics of (data, weights) = %s" % sorted(map(str, pairs))[:2])
+    # -- the chain of surviving sets
+    gens = []           # (set, keep condition that produced the next one)
+    cur = I
+    ok_chain, why = True, ""
+    while cur != ALL:
+        if _head(cur) == "IDX" and (_is_index_array(cur.args[0]) or cur.args[0] == ALL):
+            sel = cur.args[1]
+            c = sel.args[0] if _head(sel) == "WHERE" else sel
+            if not _is_mask(c):
+                ok_chain, why = None, "selection %s" % sel
+                break
+            gens.append((cur.args[0], c))
+            cur = cur.args[0]
+        elif _head(cur) == "WHERE" or _is_mask(cur):
+            ok_chain, why = False, "positions selected within the current subset (%s) are used as positions in the full array" % str(cur)[:120]
+            break
+        else:
+            ok_chain, why = None, "surviving set %s" % str(cur)[:200]
+            break
+    gens.reverse()
+    agg.put("sigma_clip::survivors-are-subset-of-current", ok_chain, why)
+    if ok_chain is not True:
+        return
+    k = len(gens)
+
+    def keep_of(c, Ig):
+        """(strict?, measured on the set Ig and its statistics? (None: not read), text) for a keep condition c; None when c is not read as a keep test"""
+        h = _head(c)
+        if h not in ("LT", "LE", "GT", "GE"):
+            return None
+        small, big = (c.args[0], c.args[1]) if h in ("LT", "LE") else (c.args[1], c.args[0])
+        # |x - m| < nsig*s, |x - m|/s < nsig, |x - m|/nsig < s ...: one |.| and what it is compared with, per unit of nsig
+        q = small / big
+        fac = sp.Mul.make_args(q)
+        ab = [f for f in fac if _head(f) == "ABS"]
+        if len(ab) != 1 or not any(f == 1 / NSIG for f in fac):
+            return None
+        scale = sp.Mul(*[1 / f for f in fac if f is not ab[0] and f != 1 / NSIG])
+        Wb = None if w is None else W
+        terms = sp.Add.make_args(sp.expand(ab[0].args[0]))
+        rs = _stat_role(scale, wmom_q)
+        if len(terms) != 2 or rs is None:
+            return None
+        for a, b in (terms, terms[::-1]):
+            for sign in (1, -1):
+                rm = _stat_role(sign * a, wmom_q)           # |b + a| with a = -mean, or |a + b| with a = mean and b = -data
+                if rm is None:
+                    continue
+                data = -sign * b
+
+                def on(x, base):
+                    if x is None or base is None:
+                        return x is None and base is None
+                    j = _set_of(x, base, ALL)
+                    return None if j is None else j == Ig
+                cur_ok = _and3(rm[0] == "mean", rs[0] == "sdev", on(data, A), on(rm[1], A), on(rs[1], A), on(rm[2], Wb), on(rs[2], Wb))
+                return (h in ("LT", "GT"), cur_ok, lambda: "keep test %s (centre: %s, scale: %s) while the current set is %s" % (str(c)[:300], rm[0], rs[0], Ig))
+        return None
+    for Ig, c in gens:
+        r = keep_of(c, Ig)
+        if r is None:
+            agg.put("sigma_clip::strict-keep-test", None, lambda: "keep selection %s" % str(c)[:300])
+            agg.put("sigma_clip::lock-step::next pass", None, lambda: "keep selection %s" % str(c)[:300])
+        else:
+            agg.put("sigma_clip::strict-keep-test", r[0], r[2])
+            agg.put("sigma_clip::lock-step::next pass", r[1], r[2])
+    # -- why the loop ended: constraints about the keep selection on the final set
+    reason = None
+    unread = False
+    for t, truth in cons:
+        cf = _count_fact(t, truth)
+        if cf is None:
+            if _opaque_term(t, known):
+                unread = True       # a test this rule does not interpret may be what ended the loop
+            continue
+        c, kind, other = cf
+        owner = None
+        for Ig, cg in gens:
+            if c == cg:
+                owner = Ig
+        if owner is None:
+            r = keep_of(c, I)
+            if r is None or r[1] is None:
+                unread = True
+            if r is not None:
+                agg.put("sigma_clip::strict-keep-test", r[0], r[2])
+                agg.put("sigma_clip::lock-step::next pass", r[1], r[2])
+                if r[1]:
+                    owner = I
+                    if kind == "zero":
+                        reason = "all clipped"
+                    elif kind in ("eq", "ge") and sp.expand(other - _csize(I)) == 0:
+                        reason = "no change"
+        if owner is not None and kind in ("eq", "ne", "ge", "lt"):
+            agg.put("sigma_clip::previous-count-tracked", None if _opaque_term(other, known) else sp.expand(other - _csize(owner)) == 0,
+                    lambda: "the number of points kept from the set %s is compared with %s" % (str(owner)[:80], other))
+    lo, hi, nread = _int_bounds(cons, NITER, 0)
+    if reason is not None:
+        agg.put("sigma_clip::break-before-update", sync, lambda: "exit because of %s: reported set %s, statistics over %s" % (reason, I, sorted({str(r[1]) for r in vroles})))
+        agg.put("sigma_clip::termination-tests", True)
+        agg.put("sigma_clip::iteration-bound", True if lo >= k else (False if nread else None), lambda: "%d passes were made on a path where niter can be %d" % (k, lo))
+    else:
+        lim = hi is not None and hi <= k
+        if not lim and (unread or not nread):
+            lim = None          # the loop was left on a test this rule does not read
+        agg.put("sigma_clip::termination-tests", lim, lambda: "after %d passes the loop ends although niter can be %s and the last selection was not compared with the set" % (k, "anything" if hi is None else hi))
+        agg.put("sigma_clip::iteration-bound", _and3(True if lo >= k else (False if nread else None), lim), lambda: "%d passes on a path where niter is in [%s, %s]" % (k, lo, "inf" if hi is None else hi))
+
+
+def _sign_form(t, truth):
+    """a path constraint as (e, strict): `e > 0` (strict) or `e >= 0`; None for other constraints"""
+    h = _head(t)
+    if h == "NOT":
+        return _sign_form(t.args[0], not truth)
+    if h not in ("LT", "LE", "GT", "GE"):
+        return None
+    if not truth:
+        h = NEG[h]
+    a, b = t.args
+    e = sp.expand(a - b) if h in ("GT", "GE") else sp.expand(b - a)
+    return (e, h in ("GT", "LT"))
 
 
 def wmedian(chk, repo):
     fi = repo.func(ST + "wmedian")
     chk.analysed_unit(fi.qualname)
-    sp_ = Spaces(fi, ["arr", "weights"])
-    s = sp_.sorter
-    chk.ob("R18.wmed", "wmedian::sorted-scan", s is not None, fi.where(), "the scan follows the argsort of the values (sorter %s)" % s)
-    if s is None:
-        return
-    env = {}
-    for x in sorted([y for y in walk_no_nested(fi.node) if isinstance(y, ast.Assign)], key=lambda y: y.lineno):
-        env.setdefault(norm(x.targets[0]), []).append(norm(x.value))
-    ok = env.get("wtot") == ["weights.sum()"] and env.get("wtot2") == ["wtot / 2.0"]
-    chk.ob("R18.wmed", "wmedian::half-total", ok, fi.where(), "half of the total weight is the target")
-    loops = [x for x in walk_no_nested(fi.node) if isinstance(x, ast.While)]
-    ok = len(loops) == 1 and norm(loops[0].test) == "sum > wtot2" and [norm(b) for b in loops[0].body] == ["k += 1", "sum -= weights[%s[k]]" % s]
-    chk.ob("R18.wmed", "wmedian::scan", ok, fi.where(), "advance through the sorted order while the remaining weight still exceeds half the total (strict >): stops at the first value whose cumulative weight reaches half")
-    ok = env.get("sum") == ["wtot - weights[%s[0]]" % s] and env.get("k") == ["0"]
-    chk.ob("R18.wmed", "wmedian::seed", ok, fi.where(), "the scan starts at sorted position 0 with its weight already removed")
-    rets = [x for x in walk_no_nested(fi.node) if isinstance(x, ast.Return)]
-    chk.ob("R18.wmed", "wmedian::returns-value-at-position", len(rets) == 1 and norm(rets[0].value) == "arr[%s[k]]" % s, fi.where(), "the value at the stopping position (in sorted order) is returned")
+    A, W = sp.Symbol("A"), sp.Symbol("W")
+    SUMF = _F("SUM")
+    S = ARGSORT(A)
+    half = SUMF(W) / 2
+    pos = [p for p in fi.params if not p.startswith("*")]
+    agg = _Agg()
+    norec, npaths, ks = None, 0, set()
+    try:
+        outs = _PX(repo, fi, one_d=True, max_body=4).returns({pos[0]: A, pos[1]: W})
+        for rv, st in outs:
+            npaths += 1
+            # the value returned: the data value at sorted position k
+            k = None
+            if isinstance(rv, sp.Basic) and _head(rv) == "IDX" and rv.args[0] == A and _head(rv.args[1]) == "IDX" and rv.args[1].args[0] == S and rv.args[1].args[1].is_Integer:
+                k = int(rv.args[1].args[1])
+            sorted_ok = k is not None
+            if not sorted_ok and isinstance(rv, sp.Basic) and _head(rv) == "IDX" and rv.args[0] == A and rv.args[1].is_Integer:
+                agg.put("wmedian::sorted-scan", False, lambda: "the value at position %s of the unsorted data is returned" % rv.args[1])
+                continue
+            agg.put("wmedian::sorted-scan", True if sorted_ok else None, lambda: "returned value %s" % str(rv)[:200])
+            if k is None:
+                continue
+            ks.add(k)
+            # the weight constraints on this path: remaining weight after removing sorted positions 0..j, against half the total
+            rem = lambda j: SUMF(W) - sum(IDX(W, IDX(S, sp.Integer(i))) for i in range(j + 1))
+            want = {(sp.expand(rem(j) - half), True) for j in range(k)} | {(sp.expand(half - rem(k)), False)}
+            got = set()
+            for t, truth in st.cons:
+                if isinstance(t, sp.Basic) and any(_head(a) == "IDX" and a.args[0] == W for a in t.atoms(sp.core.function.AppliedUndef)):
+                    sf = _sign_form(t, truth)
+                    if sf is None:
+                        agg.put("wmedian::scan", None, lambda: "weight test %s" % str(t)[:200])
+                    else:
+                        got.add(sf)
+            tot_ok = all(sp.expand(e.xreplace({a: 0 for a in e.atoms(sp.core.function.AppliedUndef) if _head(a) == "IDX"})) in (half, -half) for e, _ in got) and bool(got)
+            agg.put("wmedian::half-total", tot_ok, lambda: "weight tests %s" % sorted(map(str, got))[:3])
+            agg.put("wmedian::returns-value-at-position", {e for e, _ in got} == {e for e, _ in want} or None if tot_ok else None, lambda: "stops at sorted position %d under %s" % (k, sorted(map(str, got))[:4]))
+            if {e for e, _ in got} == {e for e, _ in want}:
+                agg.put("wmedian::scan", got == want, lambda: "strictness of the weight tests: %s, expected remaining > half to go on, <= half to stop" % sorted(map(str, got))[:4])
+            else:
+                # the tests are about other partial sums than the value returned: decide what k they select
+                agg.put("wmedian::scan", False if tot_ok else None, lambda: "returns sorted position %d when %s" % (k, sorted(map(str, got))[:4]))
+            if k == 0:
+                agg.put("wmedian::seed", got == want, lambda: "position 0 is returned when %s" % sorted(map(str, got)))
+    except (_NoRec, RecursionError, TypeError, ValueError, AttributeError, KeyError, IndexError) as ex:
+        norec = str(ex)
+    short = None if {0, 1, 2} <= ks else "only the stopping positions %s were reached" % sorted(ks)
+    texts = [("wmedian::sorted-scan", "the value returned is the data value at a position of the argsort of the values"),
+             ("wmedian::half-total", "half of the total weight is the target"),
+             ("wmedian::scan", "advance through the sorted order while the remaining weight still exceeds half the total (strict >): stops at the first value whose cumulative weight reaches half"),
+             ("wmedian::seed", "sorted position 0 is returned when its weight alone reaches half the total"),
+             ("wmedian::returns-value-at-position", "the value at the stopping position (in sorted order) is returned")]
+    for key, text in texts:
+        ok, why, n = agg.get(key)
+        if norec:
+            ok, why = None, norec
+        elif ok is True and short:
+            ok, why = None, short
+        chk.ob("R18.wmed", key, ok, fi.where(), "%s (%d paths)%s" % (text, n, (": " + why) if why else ""))
+
+
+def _kw_effective(call, name):
+    """how keyword `name` reaches a delegated call: ('explicit', v) / ('default', v) under the caller's **kw / ('caller',) / ('absent',)"""
+    rest = False
+    for a in call.args:
+        h = _head(a)
+        if h == "KW_" + name:
+            return ("explicit", a.args[0])
+        if h == "KWREST":
+            rest = True
+    for a in call.args:
+        if _head(a) == "KWDEFAULT_" + name:
+            return ("default", a.args[0])
+    return ("caller",) if rest else ("absent",)
 
 
 def summary(chk, repo):
     fi = repo.func(ST + "get_stats")
     chk.analysed_unit(fi.qualname)
-    cfg = cfg_of(fi)
-    view = cfg.view()
-    env = {}
-    for n in cfg.nodes:
-        if n.kind == "stmt" and isinstance(n.ast, ast.Assign):
-            env.setdefault(norm(n.ast.targets[0]), []).append((norm(n.ast.value), dict(rules.controlling_tests(view, n, skip_reject_guards=True))))
-    chk.ob("R18.stats", "get_stats::min-max", [v for v, _ in env.get("amin", [])] == ["arr.min(axis=0)"] and [v for v, _ in env.get("amax", [])] == ["arr.max(axis=0)"], fi.where(), "min and max are those of the data")
-    trip = {norm(n.ast.targets[0]): norm(n.ast.value) for n in cfg.nodes if n.kind == "stmt" and isinstance(n.ast, ast.Assign) and isinstance(n.ast.targets[0], ast.Tuple)}
-    chk.ob("R18.stats", "get_stats::clipped-roles", trip.get("(mn, std, err)") == "sigma_clip(arr, weights=weights, **kw)", fi.where(), "sigma_clip(get_err) yields (mean, deviation, error) in that order")
-    chk.ob("R18.stats", "get_stats::weighted-roles", trip.get("(mn, err, std)") == "wmom(arr, weights, **kw)", fi.where(), "wmom(sdev) yields (mean, error, deviation) in that order")
-    kws = {norm(n.ast.targets[0]): norm(n.ast.value) for n in cfg.nodes if n.kind == "stmt" and isinstance(n.ast, ast.Assign) and norm(n.ast.targets[0]).startswith("kw[")}
-    chk.ob("R18.stats", "get_stats::options-set", kws == {"kw['get_err']": "True", "kw['sdev']": "True", "kw['calcerr']": "True"}, fi.where(), "get_err / sdev / calcerr are switched on for the delegated calls (%s)" % kws)
-    plain = {k: [v for v, ts in vs if ts.get("weights is not None") == "F"] for k, vs in env.items() if k in ("mn", "std", "err")}
-    chk.ob("R18.stats", "get_stats::plain-definitions", plain == {"mn": ["arr.mean(axis=0)"], "std": ["arr.std(axis=0)"], "err": ["std / sqrt(arr.shape[0])"]}, fi.where(), "unweighted: mean, std and std/sqrt(N) over rows (%s)" % plain)
-    res = [a for a in walk_no_nested(fi.node) if isinstance(a, ast.Assign) and isinstance(a.value, ast.Dict)]
-    ok = len(res) == 1 and {norm(k): norm(v) for k, v in zip(res[0].value.keys, res[0].value.values)} == {"'mean'": "mn", "'std'": "std", "'err'": "err", "'min'": "amin", "'max'": "amax"}
-    chk.ob("R18.stats", "get_stats::result-keys", ok, fi.where(), "the result dict maps mean/std/err/min/max to the matching quantities")
+    A, W, KW = sp.Symbol("A"), sp.Symbol("W"), sp.Symbol("KW")
+    pos = [p for p in fi.params if not p.startswith("*")]
+    kwname = [p[2:] for p in fi.params if p.startswith("**")]
+    agg = _Agg()
+    norec, npaths = None, 0
+    ax0 = _F("KW_axis")(sp.Integer(0))
+    col = _F("IDXN")(A, sp.Symbol(":"), sp.Symbol("newaxis"))
+    clip_q, wmom_q = "C_" + ST + "sigma_clip", "C_" + ST + "wmom"
+    try:
+        if not kwname or "weights" not in pos:
+            raise _NoRec("the public parameters weights / **kw")
+        for w in (None, W):
+            init = {pos[0]: A, "weights": w, kwname[0]: _Kw(base=KW)}
+            for p in pos[1:]:
+                init.setdefault(p, False if p == "doprint" else sp.Symbol(p))
+            for rv, st in _PX(repo, fi, one_d=False, max_body=2).returns(init):
+                npaths += 1
+                if not isinstance(rv, dict):
+                    agg.put("get_stats::result-keys", None, lambda: "returned value %r" % (rv,))
+                    continue
+                agg.put("get_stats::result-keys", set(rv) == {"mean", "std", "err", "min", "max"}, lambda: "keys %s" % sorted(map(str, rv)))
+                if not {"mean", "std", "err", "min", "max"} <= set(rv):
+                    continue
+                agg.put("get_stats::min-max", rv["min"] == _F("MIN")(A, ax0) and rv["max"] == _F("MAX")(A, ax0), lambda: "min %s max %s" % (rv["min"], rv["max"]))
+                # was clipping asked for on this path
+                asked = {}
+                for t, truth in st.cons:
+                    for x, tr in _flat_cons(t, truth):
+                        if _head(x) == "IN" and x.args[1] == KW:
+                            asked[str(x.args[0])] = tr
+                    if _head(t) == "OR" and truth and all(_head(x) == "IN" for x in t.args) and {str(x.args[0]) for x in t.args} == {"'nsig'", "'niter'"}:
+                        asked["either"] = True
+                clip = True if (asked.get("either") or asked.get("'nsig'") or asked.get("'niter'")) else (False if asked.get("'nsig'") is False and asked.get("'niter'") is False else None)
+                trip = [rv["mean"], rv["std"], rv["err"]]
+                # 1-d input handled as N-by-1 and converted back: strip the [0]
+                strip = [t.args[0] if (_head(t) == "IDX" and t.args[1] == 0) else t for t in trip]
+                scal = all(_head(t) == "IDX" and t.args[1] == 0 for t in trip)
+                heads = {_head(t.args[0]) if _head(t) == "ITEM" else "" for t in strip}
+                if clip is None:
+                    agg.put("get_stats::clipped-roles", None, lambda: "whether clipping was requested is not read from %s" % str(st.cons)[:200])
+                    continue
+                if clip:
+                    ok = heads == {clip_q} and len({t.args[0] for t in trip}) == 1 and [int(t.args[1]) for t in trip] == [0, 1, 2] and not scal
+                    agg.put("get_stats::clipped-roles", ok, lambda: "mean/std/err are %s" % [str(t)[:80] for t in trip])
+                    if ok:
+                        c = trip[0].args[0]
+                        kw = _kwterms(c)
+                        agg.put("get_stats::options-set[get_err]", _kw_effective(c, "get_err") == ("explicit", TRUE_) and kw.get("arrin") == A and kw.get("weights") == _t(w)
+                                and _kw_effective(c, "get_indices") in (("caller",), ("absent",), ("explicit", FALSE_)), lambda: "call %s" % str(c)[:300])
+                elif w is not None:
+                    ok = heads == {wmom_q} and len({t.args[0] for t in strip}) == 1 and [int(t.args[1]) for t in strip] == [0, 2, 1]
+                    agg.put("get_stats::weighted-roles", ok, lambda: "mean/std/err are %s" % [str(t)[:80] for t in trip])
+                    if ok:
+                        c = strip[0].args[0]
+                        kw = _kwterms(c)
+                        data_ok = (kw.get("arrin") == col and scal) or (kw.get("arrin") == A and not scal)
+                        agg.put("get_stats::options-set[sdev]", _kw_effective(c, "sdev") == ("explicit", TRUE_) and data_ok and kw.get("weights_in") == W, lambda: "call %s" % str(c)[:300])
+                        ce = _kw_effective(c, "calcerr")
+                        agg.put("get_stats::options-set[calcerr]", ce in (("explicit", TRUE_), ("default", TRUE_)) or (ce == ("caller",) and asked.get("'calcerr'") is True), lambda: "calcerr reaches wmom as %s" % (ce,))
+                else:
+                    X = col if scal else A
+                    n = DIM(X, sp.Integer(0))
+                    want = [_F("MEAN")(X, ax0), _F("STD")(X, ax0), _F("STD")(X, ax0) / sp.sqrt(n)]
+                    ok = all(sp.expand(a - b) == 0 for a, b in zip(strip, want))
+                    agg.put("get_stats::plain-definitions", ok, lambda: "mean/std/err are %s" % [str(t)[:80] for t in trip])
+    except (_NoRec, RecursionError, TypeError, ValueError, AttributeError, KeyError, IndexError) as ex:
+        norec = str(ex)
+    texts = [("get_stats::min-max", "min and max are those of the data (over rows)"),
+             ("get_stats::clipped-roles", "with nsig/niter: sigma_clip(arr, weights=weights, get_err=True, **kw) read as (mean, deviation, error)"),
+             ("get_stats::weighted-roles", "with weights: wmom(arr, weights, **kw) read as (mean, error, deviation)"),
+             ("get_stats::options-set[get_err]", "get_err is switched on for the delegated sigma_clip call, which gets the data, the weights and the caller's keywords"),
+             ("get_stats::options-set[sdev]", "sdev is switched on for the delegated wmom call, which gets the data (as N-by-1 when 1-d), the weights and the caller's keywords"),
+             ("get_stats::options-set[calcerr]", "calcerr is on for the delegated wmom call unless the caller supplied it"),
+             ("get_stats::plain-definitions", "unweighted: mean, std and std/sqrt(N) over rows"),
+             ("get_stats::result-keys", "the result dict has the keys mean/std/err/min/max")]
+    for key, text in texts:
+        ok, why, n = agg.get(key)
+        if norec:
+            ok, why = None, norec
+        chk.ob("R18.stats", key, ok, fi.where(), "%s (%d paths)%s" % (text, n, (": " + why) if why else ""))
+
+
+def _flat_cons(t, truth):
+    h = _head(t)
+    if h == "NOT":
+        return _flat_cons(t.args[0], not truth)
+    if (h == "AND" and truth) or (h == "OR" and not truth):
+        return [y for x in t.args for y in _flat_cons(x, truth)]
+    return [(t, truth)]
 
 
 def boxcar(chk, repo):
     fi = repo.func(ST + "boxcar_average")
     chk.analysed_unit(fi.qualname)
-    env = {norm(x.targets[0]): norm(x.value) for x in walk_no_nested(fi.node) if isinstance(x, ast.Assign)}
-    rets = [x for x in walk_no_nested(fi.node) if isinstance(x, ast.Return)]
-    ok = env.get("kernel") == "ones((N,)) / N" and len(rets) == 1 and norm(rets[0].value) == "convolve(x, kernel)[N - 1:]"
-    chk.ob("R18.boxcar", "boxcar_average::normalised-window", ok, fi.where(), "convolution with N equal weights 1/N, dropping the N-1 leading partial sums")
+    X, N = sp.Symbol("X"), sp.Symbol("N")
+    pos = [p for p in fi.params if not p.startswith("*")]
+    ok, why = None, ""
+    try:
+        outs = _PX(repo, fi, one_d=True, max_body=2).returns({pos[0]: X, pos[1]: N})
+        if len(outs) != 1 or not isinstance(outs[0][0], sp.Basic):
+            raise _NoRec("%d paths" % len(outs))
+        rv = outs[0][0]
+        why = str(rv)
+        ok = False
+        if _head(rv) == "SLICE" and sp.expand(rv.args[1] - (N - 1)) == 0 and rv.args[2] == NONE_ and rv.args[3] == NONE_ and _head(rv.args[0]) == "C_numpy.convolve":
+            c = rv.args[0]
+            kw = {_head(a): a.args[0] for a in c.args[2:]}
+            mode_ok = set(kw) <= {"KW_mode"} and kw.get("KW_mode", sp.Symbol("'full'")) == sp.Symbol("'full'")
+            operands = list(c.args[:2])
+            if mode_ok and len(c.args) >= 2 and X in operands:
+                kern = operands[1] if operands[0] == X else operands[0]
+                ones = sp.cancel(kern * N)
+                if _head(ones) == "C_numpy.ones":
+                    shp = ones.args[0]
+                    dk = {_head(a): str(a.args[0]).strip("'") for a in ones.args[1:]}
+                    floaty = dk.get("KW_dtype", "f8") in ("f8", "float64", "float", "d", "OPAQUE<mod:numpy.float64>", "OPAQUE<mod:float>")
+                    ok = (shp == N or shp == TUP(N)) and set(dk) <= {"KW_dtype"} and floaty
+    except (_NoRec, RecursionError, TypeError, ValueError, AttributeError, KeyError, IndexError) as ex:
+        why = "not read: %s" % ex
+    chk.ob("R18.boxcar", "boxcar_average::normalised-window", ok, fi.where(), "convolution with N equal weights 1/N, dropping the N-1 leading partial sums (%s)" % why[:200])
